@@ -1,1803 +1,10 @@
 /-
-C17, refined: a heap of cells with `(variant, address)` handles (`Rrtk/RefHeap.lean`).
-
-In `Rrtk/Reference.lean` (the model the driver runs) aliasing and liveness are true by construction — one shared
-`value`, `dropped` computed from the handle table.  Here they are PROVED of a model in which they could fail:
-
-* `clone_preserves_address`, `to_dyn_preserves_address` — `Clone` and the `to_dyn!` arms hand out the same address, touch
-  no payload, allocate nothing; `clone` adds exactly one to the strong count of a counted cell, `to_dyn!` (a move) none;
-* `write_seen_through_every_alias` — on every reachable heap, a write through a handle is read through every handle
-  with the same address, whatever statements not writing to that address run in between;
-* `counted_cell_live_while_any_handle` — on every reachable heap the strong count of a live counted cell IS the number
-  of live handles to it; no cell with a live handle is freed; dropping the last counted handle frees the cell, dropping
-  any other does not; static cells are never freed;
-* `no_fault_on_live_handles` — programs that only name live slots never fault;
-* `simulation_step` / `simulation_run` — the one-allocation heap machine, seen through the abstraction function `absCase`,
-  IS the `RefCase` model the driver runs, event by event with the same outputs;
-* mutants: a deep-copying `clone` and an `Arc` `clone` that forgets the count are expressible in this model and are
-  refuted by the specifications the real functions are proved to meet.
-Tier S (no scalar).
+C17, extension modules (audited together with `Thm/C17.lean`, all in `namespace Rrtk.Thm.C17`):
+* `Thm/Lemmas/C17Heap.lean` — the heap machine of `Rrtk/RefHeap.lean`: invariant `HInv`, no fault on live handles, the target of a counted
+  `Reference` is alive while any handle exists, simulation to the `RefCase` model the driver runs, mutants with failing theorems;
+* `Thm/Lemmas/C17Alias.lean` — the extended machine of `Rrtk/RefAlias.lean` (raw aliases made by `unsafe` code, `clone_from`, `to_dyn!` with the arm
+  table as a parameter): invariant `HInvA`, `clone_from` makes the slot an owner (and the mutant that skips equal addresses is refuted),
+  the target is alive while any COUNTED handle exists; raw aliases can dangle (that is what `unsafe` means).
 -/
-import Rrtk.Thm.C17
-import Rrtk.RefHeap
-set_option linter.unusedSectionVars false
-set_option linter.unusedSimpArgs false
-namespace Rrtk.Thm.C17
-open Rrtk
-
-/-! ## D. the heap of cells -/
-
-/-! ### lists -/
-
-/-- number of live handles to address `a` in a handle table -/
-def cnt (a : Nat) : List (Option RHandle) → Nat
-  | [] => 0
-  | none :: t => cnt a t
-  | some h :: t => (if h.addr = a then 1 else 0) + cnt a t
-
-theorem cnt_append (a : Nat) (l : List (Option RHandle)) (h : RHandle) :
-    cnt a (l ++ [some h]) = cnt a l + (if h.addr = a then 1 else 0) := by
-  induction l with
-  | nil => simp [cnt]
-  | cons x t ih =>
-    cases x with
-    | none => simpa [cnt] using ih
-    | some g => simp only [List.cons_append, cnt, ih]; omega
-
-theorem cnt_set_none (a : Nat) (l : List (Option RHandle)) (i : Nat) (h : RHandle) (hi : l.getD i none = some h) :
-    cnt a (l.set i none) + (if h.addr = a then 1 else 0) = cnt a l := by
-  induction l generalizing i with
-  | nil => simp at hi
-  | cons x t ih =>
-    cases i with
-    | zero =>
-      simp only [List.getD_cons_zero] at hi
-      subst hi
-      simp only [List.set_cons_zero, cnt]; omega
-    | succ j =>
-      simp only [List.getD_cons_succ] at hi
-      have := ih j hi
-      cases x with
-      | none => simpa [cnt] using this
-      | some g => simp only [List.set_cons_succ, cnt]; omega
-
-theorem mem_of_getD (l : List (Option RHandle)) (i : Nat) (h : RHandle) (hi : l.getD i none = some h) : some h ∈ l := by
-  rw [List.getD_eq_getElem?_getD] at hi
-  cases hg : l[i]? with
-  | none => simp [hg] at hi
-  | some x =>
-    simp only [hg, Option.getD_some] at hi
-    subst hi
-    exact List.mem_of_getElem? hg
-
-theorem cnt_pos (l : List (Option RHandle)) (h : RHandle) (hm : some h ∈ l) : 1 ≤ cnt h.addr l := by
-  induction l with
-  | nil => simp at hm
-  | cons x t ih =>
-    rcases List.mem_cons.1 hm with he | ht
-    · subst he; simp [cnt]
-    · have := ih ht
-      cases x with
-      | none => simpa [cnt] using this
-      | some g => simp only [cnt]; omega
-
-theorem getD_lt (l : List (Option RHandle)) (i : Nat) (h : RHandle) (hi : l.getD i none = some h) : i < l.length := by
-  rw [List.getD_eq_getElem?_getD] at hi
-  by_cases hlt : i < l.length
-  · exact hlt
-  · simp [List.getElem?_eq_none (Nat.le_of_not_lt hlt)] at hi
-
-/-! ### the access check -/
-
-theorem cell_ok (hp : Heap) (a : Nat) (c : HCell) : hp.cell a = .ok c ↔ hp[a]? = some c ∧ c.freed = false := by
-  unfold Heap.cell
-  cases hg : hp[a]? with
-  | none => simp
-  | some x =>
-    simp only [Option.some.injEq]
-    by_cases hf : x.freed = true
-    · rw [if_pos hf]; constructor
-      · intro h; cases h
-      · rintro ⟨rfl, h2⟩; rw [hf] at h2; cases h2
-    · rw [if_neg hf]; simp only [Except.ok.injEq]; constructor
-      · intro h; subst h; exact ⟨rfl, by simpa using hf⟩
-      · exact fun h => h.1
-
-theorem cell_lt (hp : Heap) (a : Nat) (c : HCell) (h : hp.cell a = .ok c) : a < hp.length := by
-  have := ((cell_ok hp a c).1 h).1
-  by_cases hlt : a < hp.length
-  · exact hlt
-  · rw [List.getElem?_eq_none (Nat.le_of_not_lt hlt)] at this; cases this
-
-/-- the heap after overwriting the (existing) cell at `a` -/
-theorem get_set (hp : Heap) (a : Nat) (c' : HCell) (ha : a < hp.length) (b : Nat) :
-    (hp.set a c')[b]? = if b = a then some c' else hp[b]? := by
-  rw [List.getElem?_set]
-  by_cases h : a = b
-  · subst h; simp [ha]
-  · have h' : ¬ b = a := fun e => h e.symm
-    simp [h, h']
-
-/-! ### `Clone` and `to_dyn!` on the heap -/
-
-/-- `Clone`, arm by arm, is: hand out the SAME handle; for a counted variant after incrementing the strong count in the
-cell the handle points at (faulting if that cell is gone) -/
-theorem heap_clone_eq (hp : Heap) (h : RHandle) :
-    hp.clone h =
-      if h.variant.counted then
-        (match hp.cell h.addr with
-         | .error e => .error e
-         | .ok c => .ok (hp.set h.addr { c with strong := c.strong + 1 }, h))
-      else .ok (hp, h) := by
-  obtain ⟨v, a, d⟩ := h
-  cases v <;> rfl
-
-/-- `to_dyn!`, arm by arm, is: if the calling crate gets an arm for the variant, the same handle marked `dyn` and the
-same heap; `unimplemented!()` otherwise -/
-theorem heap_toDyn_eq (feats : List String) (hp : Heap) (h : RHandle) :
-    Heap.toDyn feats hp h =
-      if toDynHasArm feats h.variant then .ok (hp, { h with isDyn := true }) else .error (.panic .unimpl) := by
-  obtain ⟨v, a, d⟩ := h
-  rfl
-
-/-- **`clone` preserves the address.** The clone is a handle of the same variant to the SAME address; no cell is
-allocated; no payload and no `freed` flag changes anywhere; cells at other addresses are untouched; the raw-pointer
-variants leave the heap alone; the counted variants require the cell to be alive and add exactly one to its strong
-count. -/
-theorem clone_preserves_address (hp hp' : Heap) (h h' : RHandle) (hc : hp.clone h = .ok (hp', h')) :
-    h'.addr = h.addr ∧ h'.variant = h.variant ∧ h'.isDyn = h.isDyn ∧
-    hp'.length = hp.length ∧
-    (∀ b : Nat, (hp'[b]?).map (fun c : HCell => (c.kind, c.value, c.freed)) = (hp[b]?).map (fun c : HCell => (c.kind, c.value, c.freed))) ∧
-    (∀ b, b ≠ h.addr → hp'[b]? = hp[b]?) ∧
-    (h.variant.counted = false → hp' = hp) ∧
-    (h.variant.counted = true →
-      ∃ c, hp.cell h.addr = .ok c ∧ hp'[h.addr]? = some { c with strong := c.strong + 1 }) := by
-  rw [heap_clone_eq] at hc
-  cases hk : h.variant.counted with
-  | false =>
-    simp only [hk, Bool.false_eq_true, if_false, Except.ok.injEq, Prod.mk.injEq] at hc
-    obtain ⟨rfl, rfl⟩ := hc
-    exact ⟨rfl, rfl, rfl, rfl, fun _ => rfl, fun _ _ => rfl, fun _ => rfl, fun h => absurd h (by decide)⟩
-  | true =>
-    simp only [hk, if_true] at hc
-    cases hcell : hp.cell h.addr with
-    | error e => rw [hcell] at hc; cases hc
-    | ok c =>
-      rw [hcell] at hc
-      simp only [Except.ok.injEq, Prod.mk.injEq] at hc
-      obtain ⟨rfl, rfl⟩ := hc
-      have hlt := cell_lt hp _ c hcell
-      have hget := ((cell_ok hp _ c).1 hcell).1
-      refine ⟨rfl, rfl, rfl, List.length_set, ?_, ?_, fun h => absurd h (by decide), fun _ => ⟨c, rfl, ?_⟩⟩
-      · intro b
-        rw [get_set hp _ _ hlt]
-        by_cases hb : b = h.addr
-        · subst hb; simp [hget]
-        · simp [hb]
-      · intro b hb; rw [get_set hp _ _ hlt]; simp [hb]
-      · rw [get_set hp _ _ hlt]; simp
-
-/-- **`to_dyn!` preserves the address.** A successful conversion yields a handle of the same variant to the SAME
-address, marked as a trait object, and does not touch the heap at all (the argument is moved: no count changes); it
-succeeds exactly when the calling crate gets an arm for the variant, and panics with `unimplemented!()` otherwise. -/
-theorem to_dyn_preserves_address (feats : List String) (hp : Heap) (h : RHandle) :
-    (∀ hp' h', Heap.toDyn feats hp h = .ok (hp', h') →
-      h'.addr = h.addr ∧ h'.variant = h.variant ∧ h'.isDyn = true ∧ hp' = hp ∧ toDynHasArm feats h.variant = true) ∧
-    (toDynHasArm feats h.variant = true → Heap.toDyn feats hp h = .ok (hp, ⟨h.variant, h.addr, true⟩)) ∧
-    (toDynHasArm feats h.variant = false → Heap.toDyn feats hp h = .error (.panic .unimpl)) := by
-  rw [heap_toDyn_eq]
-  cases ha : toDynHasArm feats h.variant
-  · refine ⟨fun _ _ hc => by simp at hc, fun h => absurd h (by decide), fun _ => by simp⟩
-  · refine ⟨fun hp' h' hc => ?_, fun _ => by simp, fun h => absurd h (by decide)⟩
-    simp only [if_true, Except.ok.injEq, Prod.mk.injEq] at hc
-    obtain ⟨rfl, rfl⟩ := hc
-    exact ⟨rfl, rfl, rfl, rfl, rfl⟩
-
-/-- non-vacuity: an `Rc` clone (count 1 → 2, same address 0) and its conversion in a featureless caller -/
-example : Heap.clone [⟨.rcRefCell, 5, false, 1⟩] ⟨.rcRefCell, 0, false⟩ =
-    .ok ([⟨.rcRefCell, 5, false, 2⟩], ⟨.rcRefCell, 0, false⟩) := by rfl
-example : Heap.toDyn [] [⟨.rcRefCell, 5, false, 2⟩] ⟨.rcRefCell, 0, false⟩ =
-    .ok ([⟨.rcRefCell, 5, false, 2⟩], ⟨.rcRefCell, 0, true⟩) := by rfl
--- (an example through a variant WITHOUT an arm today is in Thm/Lemmas/C17Snapshot.lean)
-
-/-! ### the invariant of reachable heaps -/
-
-/-- (1) every live handle points at an allocated cell of its own kind; (2) for every cell: a live counted cell's strong
-count is the number of live handles to it, and is at least 1; a freed cell has no live handle; a cell of a raw-pointer
-kind (a static) is never freed -/
-def HInv (s : RState) : Prop :=
-  (∀ h, some h ∈ s.table → ∃ c, s.heap[h.addr]? = some c ∧ c.kind = h.variant) ∧
-  (∀ a c, s.heap[a]? = some c →
-    (c.kind.counted = true → c.freed = false → c.strong = cnt a s.table ∧ 1 ≤ c.strong) ∧
-    (c.freed = true → cnt a s.table = 0) ∧
-    (c.kind.counted = false → c.freed = false))
-
-theorem cnt_zero_of_forall (a : Nat) (l : List (Option RHandle)) (hne : ∀ h, some h ∈ l → h.addr ≠ a) : cnt a l = 0 := by
-  induction l with
-  | nil => rfl
-  | cons x t ih =>
-    have ht := ih (fun h hm => hne h (List.mem_cons_of_mem _ hm))
-    cases x with
-    | none => simpa [cnt] using ht
-    | some g =>
-      have := hne g (List.mem_cons_self ..)
-      simp [cnt, this, ht]
-
-theorem hinv_empty : HInv RState.empty := by
-  refine ⟨fun h hm => by simp [RState.empty] at hm, fun a c hc => by simp [RState.empty] at hc⟩
-
-/-- frame rule: the cell at `a` is replaced by one of the same kind, handles are only added / removed at `a` -/
-theorem hinv_frame (s s' : RState) (a : Nat) (c c' : HCell) (hI : HInv s) (hc : s.heap[a]? = some c)
-    (hk : c'.kind = c.kind)
-    (hheap : ∀ b : Nat, s'.heap[b]? = if b = a then some c' else s.heap[b]?)
-    (htyp : ∀ h, some h ∈ s'.table → ∃ h0, some h0 ∈ s.table ∧ h0.addr = h.addr ∧ h0.variant = h.variant)
-    (hcnt : ∀ b, b ≠ a → cnt b s'.table = cnt b s.table)
-    (h1 : c'.kind.counted = true → c'.freed = false → c'.strong = cnt a s'.table ∧ 1 ≤ c'.strong)
-    (h2 : c'.freed = true → cnt a s'.table = 0)
-    (h3 : c'.kind.counted = false → c'.freed = false) : HInv s' := by
-  obtain ⟨t1, t2⟩ := hI
-  refine ⟨?_, ?_⟩
-  · intro h hm
-    obtain ⟨h0, hm0, ha, hv⟩ := htyp h hm
-    obtain ⟨c0, hc0, hk0⟩ := t1 h0 hm0
-    rw [hheap]
-    by_cases hb : h.addr = a
-    · refine ⟨c', by simp [hb], ?_⟩
-      rw [ha, hb, hc] at hc0
-      simp only [Option.some.injEq] at hc0
-      rw [hk, hc0, hk0, hv]
-    · refine ⟨c0, ?_, by rw [hk0, hv]⟩
-      simp only [hb, if_false]
-      rw [← ha]; exact hc0
-  · intro b cb hcb
-    rw [hheap] at hcb
-    by_cases hb : b = a
-    · subst hb
-      simp only [if_true, Option.some.injEq] at hcb
-      subst hcb
-      exact ⟨h1, h2, h3⟩
-    · simp only [hb, if_false] at hcb
-      rw [hcnt b hb]
-      exact t2 b cb hcb
-
-theorem heap_self (hp : Heap) (a : Nat) (c : HCell) (hc : hp[a]? = some c) (b : Nat) :
-    hp[b]? = if b = a then some c else hp[b]? := by
-  by_cases hb : b = a
-  · subst hb; simp [hc]
-  · simp [hb]
-
-/-- a live handle of a raw-pointer variant is duplicated (heap untouched) -/
-theorem hinv_push_raw (s : RState) (h h' : RHandle) (hI : HInv s) (hm : some h ∈ s.table)
-    (hk : h.variant.counted = false) (ha : h'.addr = h.addr) (hv : h'.variant = h.variant) :
-    HInv ⟨s.heap, s.table ++ [some h']⟩ := by
-  obtain ⟨c, hc, hkc⟩ := hI.1 h hm
-  have hc2 := hI.2 h.addr c hc
-  have hkc' : c.kind.counted = false := by rw [hkc]; exact hk
-  refine hinv_frame s _ h.addr c c hI hc rfl (heap_self _ _ _ hc) ?_ ?_ ?_ ?_ hc2.2.2
-  · intro g hg
-    rcases List.mem_append.1 hg with hg | hg
-    · exact ⟨g, hg, rfl, rfl⟩
-    · simp only [List.mem_singleton, Option.some.injEq] at hg
-      subst hg; exact ⟨h, hm, ha.symm, hv.symm⟩
-  · intro b hb
-    show cnt b (s.table ++ [some h']) = cnt b s.table
-    rw [cnt_append, ha]
-    have : ¬ h.addr = b := fun e => hb e.symm
-    simp [this]
-  · intro hcn; rw [hkc'] at hcn; cases hcn
-  · intro hf; rw [hc2.2.2 hkc'] at hf; cases hf
-
-/-- a live handle of a counted variant is duplicated and the strong count incremented -/
-theorem hinv_push_counted (s : RState) (h h' : RHandle) (c : HCell) (hI : HInv s) (hm : some h ∈ s.table)
-    (hk : h.variant.counted = true) (hcell : s.heap.cell h.addr = .ok c) (ha : h'.addr = h.addr)
-    (hv : h'.variant = h.variant) :
-    HInv ⟨s.heap.set h.addr { c with strong := c.strong + 1 }, s.table ++ [some h']⟩ := by
-  obtain ⟨hc, hfr⟩ := (cell_ok _ _ _).1 hcell
-  obtain ⟨c0, hc0, hkc⟩ := hI.1 h hm
-  rw [hc] at hc0; simp only [Option.some.injEq] at hc0; subst hc0
-  have hc2 := hI.2 h.addr c hc
-  have hkc' : c.kind.counted = true := by rw [hkc]; exact hk
-  refine hinv_frame s _ h.addr c { c with strong := c.strong + 1 } hI hc rfl
-    (get_set _ _ _ (cell_lt _ _ _ hcell)) ?_ ?_ ?_ ?_ ?_
-  · intro g hg
-    rcases List.mem_append.1 hg with hg | hg
-    · exact ⟨g, hg, rfl, rfl⟩
-    · simp only [List.mem_singleton, Option.some.injEq] at hg
-      subst hg; exact ⟨h, hm, ha.symm, hv.symm⟩
-  · intro b hb
-    show cnt b (s.table ++ [some h']) = cnt b s.table
-    rw [cnt_append, ha]
-    have : ¬ h.addr = b := fun e => hb e.symm
-    simp [this]
-  · intro _ _
-    show c.strong + 1 = cnt h.addr (s.table ++ [some h']) ∧ 1 ≤ c.strong + 1
-    rw [cnt_append, ha]
-    have := (hc2.1 hkc' hfr).1
-    simp only [if_true]; omega
-  · intro hf; change c.freed = true at hf; rw [hfr] at hf; cases hf
-  · intro hcn; change c.kind.counted = false at hcn; rw [hkc'] at hcn; cases hcn
-
-/-- a live handle is moved out of its slot and an equivalent one pushed (heap untouched) -/
-theorem hinv_move (s : RState) (i : Nat) (h h' : RHandle) (hI : HInv s) (hi : s.table.getD i none = some h)
-    (ha : h'.addr = h.addr) (hv : h'.variant = h.variant) :
-    HInv ⟨s.heap, s.table.set i none ++ [some h']⟩ := by
-  have hm := mem_of_getD _ _ _ hi
-  obtain ⟨c, hc, hkc⟩ := hI.1 h hm
-  have hc2 := hI.2 h.addr c hc
-  have hcnt : ∀ b, cnt b (s.table.set i none ++ [some h']) = cnt b s.table := by
-    intro b
-    rw [cnt_append, ha]
-    exact cnt_set_none b s.table i h hi
-  refine hinv_frame s _ h.addr c c hI hc rfl (heap_self _ _ _ hc) ?_ (fun b _ => hcnt b) ?_ ?_ hc2.2.2
-  · intro g hg
-    rcases List.mem_append.1 hg with hg | hg
-    · rcases List.mem_or_eq_of_mem_set hg with hg | hg
-      · exact ⟨g, hg, rfl, rfl⟩
-      · cases hg
-    · simp only [List.mem_singleton, Option.some.injEq] at hg
-      subst hg; exact ⟨h, hm, ha.symm, hv.symm⟩
-  · intro hk hf
-    show c.strong = cnt h.addr (s.table.set i none ++ [some h']) ∧ 1 ≤ c.strong
-    rw [hcnt]; exact hc2.1 hk hf
-  · intro hf
-    show cnt h.addr (s.table.set i none ++ [some h']) = 0
-    rw [hcnt]; exact hc2.2.1 hf
-
-/-- the payload of a live cell is overwritten -/
-theorem hinv_write (s : RState) (a : Nat) (c : HCell) (v : Int) (hI : HInv s) (hcell : s.heap.cell a = .ok c) :
-    HInv ⟨s.heap.set a { c with value := v }, s.table⟩ := by
-  obtain ⟨hc, hfr⟩ := (cell_ok _ _ _).1 hcell
-  have hc2 := hI.2 a c hc
-  exact hinv_frame s _ a c { c with value := v } hI hc rfl (get_set _ _ _ (cell_lt _ _ _ hcell))
-    (fun g hg => ⟨g, hg, rfl, rfl⟩) (fun _ _ => rfl) hc2.1 hc2.2.1 hc2.2.2
-
-/-- a raw-pointer handle is dropped (heap untouched) -/
-theorem hinv_unset_raw (s : RState) (i : Nat) (h : RHandle) (hI : HInv s) (hi : s.table.getD i none = some h)
-    (hk : h.variant.counted = false) : HInv ⟨s.heap, s.table.set i none⟩ := by
-  have hm := mem_of_getD _ _ _ hi
-  obtain ⟨c, hc, hkc⟩ := hI.1 h hm
-  have hc2 := hI.2 h.addr c hc
-  have hkc' : c.kind.counted = false := by rw [hkc]; exact hk
-  refine hinv_frame s _ h.addr c c hI hc rfl (heap_self _ _ _ hc) ?_ ?_ ?_ ?_ hc2.2.2
-  · intro g hg
-    rcases List.mem_or_eq_of_mem_set hg with hg | hg
-    · exact ⟨g, hg, rfl, rfl⟩
-    · cases hg
-  · intro b hb
-    have := cnt_set_none b s.table i h hi
-    have hne : ¬ h.addr = b := fun e => hb e.symm
-    simpa [hne] using this
-  · intro hcn; rw [hkc'] at hcn; cases hcn
-  · intro hf; rw [hc2.2.2 hkc'] at hf; cases hf
-
-/-- a counted handle is dropped: the strong count is decremented and the cell freed when it reaches 0 -/
-theorem hinv_unset_counted (s : RState) (i : Nat) (h : RHandle) (c : HCell) (hI : HInv s)
-    (hi : s.table.getD i none = some h) (hk : h.variant.counted = true) (hcell : s.heap.cell h.addr = .ok c) :
-    HInv ⟨s.heap.set h.addr { c with strong := c.strong - 1, freed := c.strong - 1 == 0 }, s.table.set i none⟩ := by
-  have hm := mem_of_getD _ _ _ hi
-  obtain ⟨hc, hfr⟩ := (cell_ok _ _ _).1 hcell
-  obtain ⟨c0, hc0, hkc⟩ := hI.1 h hm
-  rw [hc] at hc0; simp only [Option.some.injEq] at hc0; subst hc0
-  have hc2 := hI.2 h.addr c hc
-  have hkc' : c.kind.counted = true := by rw [hkc]; exact hk
-  have hstrong := (hc2.1 hkc' hfr).1
-  have hdec := cnt_set_none h.addr s.table i h hi
-  simp only [if_true] at hdec
-  refine hinv_frame s _ h.addr c { c with strong := c.strong - 1, freed := c.strong - 1 == 0 } hI hc rfl
-    (get_set _ _ _ (cell_lt _ _ _ hcell)) ?_ ?_ ?_ ?_ ?_
-  · intro g hg
-    rcases List.mem_or_eq_of_mem_set hg with hg | hg
-    · exact ⟨g, hg, rfl, rfl⟩
-    · cases hg
-  · intro b hb
-    have := cnt_set_none b s.table i h hi
-    have hne : ¬ h.addr = b := fun e => hb e.symm
-    simpa [hne] using this
-  · intro _ hf
-    change (c.strong - 1 == 0) = false at hf
-    show c.strong - 1 = cnt h.addr (s.table.set i none) ∧ 1 ≤ c.strong - 1
-    have : c.strong - 1 ≠ 0 := by simpa using hf
-    omega
-  · intro hf
-    change (c.strong - 1 == 0) = true at hf
-    show cnt h.addr (s.table.set i none) = 0
-    have : c.strong - 1 = 0 := by simpa using hf
-    omega
-  · intro hcn; change c.kind.counted = false at hcn; rw [hkc'] at hcn; cases hcn
-
-/-- a constructor: a fresh cell and the first handle to it -/
-theorem hinv_alloc (s : RState) (k : RefVariant) (v : Int) (hI : HInv s) : HInv (s.alloc k v) := by
-  obtain ⟨t1, t2⟩ := hI
-  have hlt : ∀ h, some h ∈ s.table → h.addr < s.heap.length := by
-    intro h hm
-    obtain ⟨c, hc, _⟩ := t1 h hm
-    by_cases hlt : h.addr < s.heap.length
-    · exact hlt
-    · rw [List.getElem?_eq_none (Nat.le_of_not_lt hlt)] at hc; cases hc
-  refine ⟨?_, ?_⟩
-  · intro h hm
-    simp only [RState.alloc, Heap.alloc] at hm ⊢
-    rcases List.mem_append.1 hm with hm | hm
-    · obtain ⟨c, hc, hk⟩ := t1 h hm
-      exact ⟨c, by rw [List.getElem?_append_left (hlt h hm)]; exact hc, hk⟩
-    · simp only [List.mem_singleton, Option.some.injEq] at hm
-      subst hm
-      exact ⟨⟨k, v, false, if k.counted then 1 else 0⟩, by simp, rfl⟩
-  · intro b cb hcb
-    simp only [RState.alloc, Heap.alloc] at hcb ⊢
-    rw [cnt_append]
-    by_cases hb : b < s.heap.length
-    · rw [List.getElem?_append_left hb] at hcb
-      have hne : ¬ s.heap.length = b := by omega
-      simp only [hne, if_false, Nat.add_zero]
-      exact t2 b cb hcb
-    · have hz : cnt b s.table = 0 := cnt_zero_of_forall b s.table (fun h hm => by have := hlt h hm; omega)
-      by_cases hb' : b = s.heap.length
-      · subst hb'
-        simp only [List.getElem?_concat_length, Option.some.injEq] at hcb
-        subst hcb
-        simp only [if_true, hz]
-        refine ⟨fun hk _ => by simp [hk], fun hf => absurd hf (by decide), fun _ => by first | trivial | rfl⟩
-      · rw [List.getElem?_eq_none (by simp; omega)] at hcb; cases hcb
-
-/-! ### the statements of the machine in closed form -/
-
-theorem rclone_eq (s : RState) (i : Nat) :
-    s.clone i =
-      match s.table.getD i none with
-      | none => .error .deadHandle
-      | some h =>
-        if h.variant.counted then
-          (match s.heap.cell h.addr with
-           | .error e => .error e
-           | .ok c => .ok ⟨s.heap.set h.addr { c with strong := c.strong + 1 }, s.table ++ [some h]⟩)
-        else .ok ⟨s.heap, s.table ++ [some h]⟩ := by
-  unfold RState.clone RState.slot
-  cases s.table.getD i none with
-  | none => rfl
-  | some h =>
-    simp only [heap_clone_eq]
-    cases h.variant.counted
-    · rfl
-    · simp only [if_true]
-      cases s.heap.cell h.addr <;> rfl
-
-theorem rtoDynClone_eq (feats : List String) (s : RState) (i : Nat) :
-    s.toDynClone feats i =
-      match s.table.getD i none with
-      | none => .error .deadHandle
-      | some h =>
-        if h.variant.counted then
-          (match s.heap.cell h.addr with
-           | .error e => .error e
-           | .ok c =>
-             if toDynHasArm feats h.variant then
-               .ok ⟨s.heap.set h.addr { c with strong := c.strong + 1 }, s.table ++ [some { h with isDyn := true }]⟩
-             else .error (.panic .unimpl))
-        else if toDynHasArm feats h.variant then .ok ⟨s.heap, s.table ++ [some { h with isDyn := true }]⟩
-        else .error (.panic .unimpl) := by
-  unfold RState.toDynClone RState.slot
-  cases s.table.getD i none with
-  | none => rfl
-  | some h =>
-    simp only [heap_clone_eq]
-    cases h.variant.counted
-    · simp only [Bool.false_eq_true, if_false, heap_toDyn_eq]
-      cases toDynHasArm feats h.variant <;> rfl
-    · simp only [if_true]
-      cases s.heap.cell h.addr with
-      | error e => rfl
-      | ok c =>
-        simp only [heap_toDyn_eq]
-        cases toDynHasArm feats h.variant <;> rfl
-
-theorem rtoDynMove_eq (feats : List String) (s : RState) (i : Nat) :
-    s.toDynMove feats i =
-      match s.table.getD i none with
-      | none => .error .deadHandle
-      | some h =>
-        if toDynHasArm feats h.variant then .ok ⟨s.heap, s.table.set i none ++ [some { h with isDyn := true }]⟩
-        else .error (.panic .unimpl) := by
-  unfold RState.toDynMove RState.slot
-  cases s.table.getD i none with
-  | none => rfl
-  | some h =>
-    simp only [heap_toDyn_eq]
-    cases toDynHasArm feats h.variant <;> rfl
-
-theorem rread_eq (s : RState) (i : Nat) :
-    s.read i =
-      match s.table.getD i none with
-      | none => .error .deadHandle
-      | some h =>
-        match s.heap.cell h.addr with
-        | .error e => .error e
-        | .ok c => .ok c.value := by
-  unfold RState.read RState.slot Heap.read
-  cases s.table.getD i none <;> rfl
-
-theorem rwrite_eq (s : RState) (i : Nat) (v : Int) :
-    s.write i v =
-      match s.table.getD i none with
-      | none => .error .deadHandle
-      | some h =>
-        match s.heap.cell h.addr with
-        | .error e => .error e
-        | .ok c => .ok ⟨s.heap.set h.addr { c with value := v }, s.table⟩ := by
-  unfold RState.write RState.slot Heap.write
-  cases s.table.getD i none with
-  | none => rfl
-  | some h => simp only []; cases s.heap.cell h.addr <;> rfl
-
-theorem rdrop_eq (s : RState) (i : Nat) :
-    s.drop i =
-      match s.table.getD i none with
-      | none => .error .deadHandle
-      | some h =>
-        if h.variant.counted then
-          (match s.heap.cell h.addr with
-           | .error e => .error e
-           | .ok c =>
-             .ok ⟨s.heap.set h.addr { c with strong := c.strong - 1, freed := c.strong - 1 == 0 }, s.table.set i none⟩)
-        else .ok ⟨s.heap, s.table.set i none⟩ := by
-  unfold RState.drop RState.slot Heap.drop
-  cases s.table.getD i none with
-  | none => rfl
-  | some h =>
-    simp only []
-    cases h.variant.counted
-    · rfl
-    · simp only [if_true]; cases s.heap.cell h.addr <;> rfl
-
-/-! ### every statement preserves the invariant -/
-
-theorem hinv_exec (feats : List String) (s s' : RState) (op : HOp) (hI : HInv s) (he : hexec feats s op = .ok s') :
-    HInv s' := by
-  cases op with
-  | alloc k v =>
-    simp only [hexec, Except.ok.injEq] at he
-    subst he; exact hinv_alloc s k v hI
-  | clone i =>
-    simp only [hexec, rclone_eq] at he
-    cases hi : s.table.getD i none with
-    | none => rw [hi] at he; cases he
-    | some h =>
-      rw [hi] at he
-      have hm := mem_of_getD _ _ _ hi
-      cases hk : h.variant.counted with
-      | false =>
-        simp only [hk, Bool.false_eq_true, if_false, Except.ok.injEq] at he
-        subst he; exact hinv_push_raw s h h hI hm hk rfl rfl
-      | true =>
-        simp only [hk, if_true] at he
-        cases hcell : s.heap.cell h.addr with
-        | error e => rw [hcell] at he; cases he
-        | ok c =>
-          rw [hcell] at he
-          simp only [Except.ok.injEq] at he
-          subst he; exact hinv_push_counted s h h c hI hm hk hcell rfl rfl
-  | toDynClone i =>
-    simp only [hexec, rtoDynClone_eq] at he
-    cases hi : s.table.getD i none with
-    | none => rw [hi] at he; cases he
-    | some h =>
-      rw [hi] at he
-      have hm := mem_of_getD _ _ _ hi
-      cases harm : toDynHasArm feats h.variant with
-      | false =>
-        cases hk : h.variant.counted with
-        | false => simp [hk, harm] at he
-        | true =>
-          simp only [hk, harm, if_true] at he
-          cases hcell : s.heap.cell h.addr <;> rw [hcell] at he <;> simp at he
-      | true =>
-        cases hk : h.variant.counted with
-        | false =>
-          simp only [hk, harm, Bool.false_eq_true, if_false, if_true, Except.ok.injEq] at he
-          subst he; exact hinv_push_raw s h _ hI hm hk rfl rfl
-        | true =>
-          simp only [hk, harm, if_true] at he
-          cases hcell : s.heap.cell h.addr with
-          | error e => rw [hcell] at he; cases he
-          | ok c =>
-            rw [hcell] at he
-            simp only [Except.ok.injEq] at he
-            subst he; exact hinv_push_counted s h _ c hI hm hk hcell rfl rfl
-  | toDynMove i =>
-    simp only [hexec, rtoDynMove_eq] at he
-    cases hi : s.table.getD i none with
-    | none => rw [hi] at he; cases he
-    | some h =>
-      rw [hi] at he
-      cases harm : toDynHasArm feats h.variant with
-      | false => simp [harm] at he
-      | true =>
-        simp only [harm, if_true, Except.ok.injEq] at he
-        subst he; exact hinv_move s i h _ hI hi rfl rfl
-  | read i =>
-    simp only [hexec] at he
-    cases hr : s.read i with
-    | error e => rw [hr] at he; cases he
-    | ok x => rw [hr] at he; simp only [Except.ok.injEq] at he; subst he; exact hI
-  | write i v =>
-    simp only [hexec, rwrite_eq] at he
-    cases hi : s.table.getD i none with
-    | none => rw [hi] at he; cases he
-    | some h =>
-      rw [hi] at he
-      dsimp only at he
-      cases hcell : s.heap.cell h.addr with
-      | error e => rw [hcell] at he; cases he
-      | ok c =>
-        rw [hcell] at he
-        simp only [Except.ok.injEq] at he
-        subst he; exact hinv_write s h.addr c v hI hcell
-  | drop i =>
-    simp only [hexec, rdrop_eq] at he
-    cases hi : s.table.getD i none with
-    | none => rw [hi] at he; cases he
-    | some h =>
-      rw [hi] at he
-      cases hk : h.variant.counted with
-      | false =>
-        simp only [hk, Bool.false_eq_true, if_false, Except.ok.injEq] at he
-        subst he; exact hinv_unset_raw s i h hI hi hk
-      | true =>
-        simp only [hk, if_true] at he
-        cases hcell : s.heap.cell h.addr with
-        | error e => rw [hcell] at he; cases he
-        | ok c =>
-          rw [hcell] at he
-          simp only [Except.ok.injEq] at he
-          subst he; exact hinv_unset_counted s i h c hI hi hk hcell
-
-theorem hrun_cons_ok (feats : List String) (s s' : RState) (op : HOp) (rest : List HOp)
-    (h : hexec feats s op = .ok s') : hrun feats s (op :: rest) = hrun feats s' rest := by
-  simp [hrun, hrunWith, h]
-
-theorem hrun_cons_err (feats : List String) (s : RState) (op : HOp) (rest : List HOp) (e : HFault)
-    (h : hexec feats s op = .error e) : hrun feats s (op :: rest) = .error e := by
-  simp [hrun, hrunWith, h]
-
-theorem hinv_run (feats : List String) (s s' : RState) (ops : List HOp) (hI : HInv s)
-    (hr : hrun feats s ops = .ok s') : HInv s' := by
-  induction ops generalizing s with
-  | nil => simp only [hrun, hrunWith, Except.ok.injEq] at hr; subst hr; exact hI
-  | cons op rest ih =>
-    cases he : hexec feats s op with
-    | error e => rw [hrun_cons_err feats s op rest e he] at hr; cases hr
-    | ok s1 => rw [hrun_cons_ok feats s s1 op rest he] at hr; exact ih s1 (hinv_exec feats s s1 op hI he) hr
-
-/-- a heap + handle table produced by SOME program (any statements, any order, any caller features) from nothing -/
-def Reachable (s : RState) : Prop := ∃ feats ops, hrun feats RState.empty ops = .ok s
-
-theorem hinv_reachable (s : RState) (hr : Reachable s) : HInv s := by
-  obtain ⟨feats, ops, h⟩ := hr
-  exact hinv_run feats _ s ops hinv_empty h
-
-/-! ### liveness -/
-
-/-- under the invariant a live handle can be dereferenced: its cell is allocated, of its kind, and not freed -/
-theorem live_cell (s : RState) (hI : HInv s) (h : RHandle) (hm : some h ∈ s.table) :
-    ∃ c, s.heap.cell h.addr = .ok c ∧ c.kind = h.variant := by
-  obtain ⟨c, hc, hk⟩ := hI.1 h hm
-  refine ⟨c, (cell_ok _ _ _).2 ⟨hc, ?_⟩, hk⟩
-  cases hf : c.freed with
-  | false => rfl
-  | true =>
-    have := (hI.2 h.addr c hc).2.1 hf
-    have := cnt_pos s.table h hm
-    omega
-
-/-- **A counted cell lives exactly while a handle to it exists.** On every heap reachable by any program:
-(1) the strong count of a live `Rc` / `Arc` cell IS the number of live handles to it (and that number is ≥ 1);
-(2) a freed cell has no live handle — equivalently (3) every live handle points at an allocated, un-freed cell of its own
-kind, so dereferencing it does not fault; (4) static cells are never freed; (5) dropping a counted handle succeeds,
-removes exactly that handle, and frees the cell if and only if it was the LAST handle to it. -/
-theorem counted_cell_live_while_any_handle (s : RState) (hr : Reachable s) :
-    (∀ (a : Nat) (c : HCell), s.heap[a]? = some c → c.kind.counted = true → c.freed = false →
-      c.strong = cnt a s.table ∧ 1 ≤ cnt a s.table) ∧
-    (∀ (a : Nat) (c : HCell), s.heap[a]? = some c → c.freed = true → cnt a s.table = 0) ∧
-    (∀ i h, s.table.getD i none = some h →
-      ∃ c, s.heap[h.addr]? = some c ∧ c.kind = h.variant ∧ c.freed = false ∧ s.read i = .ok c.value) ∧
-    (∀ (a : Nat) (c : HCell), s.heap[a]? = some c → c.kind.counted = false → c.freed = false) ∧
-    (∀ i h, s.table.getD i none = some h → h.variant.counted = true →
-      ∃ s' c', s.drop i = .ok s' ∧ s'.table = s.table.set i none ∧ s'.heap[h.addr]? = some c' ∧
-        cnt h.addr s'.table + 1 = cnt h.addr s.table ∧
-        (c'.freed = true ↔ cnt h.addr s.table = 1) ∧ (c'.freed = false → c'.strong = cnt h.addr s'.table)) := by
-  have hI := hinv_reachable s hr
-  refine ⟨?_, ?_, ?_, ?_, ?_⟩
-  · intro a c hc hk hf
-    have := (hI.2 a c hc).1 hk hf
-    omega
-  · intro a c hc hf; exact (hI.2 a c hc).2.1 hf
-  · intro i h hi
-    obtain ⟨c, hcell, hk⟩ := live_cell s hI h (mem_of_getD _ _ _ hi)
-    obtain ⟨hc, hf⟩ := (cell_ok _ _ _).1 hcell
-    refine ⟨c, hc, hk, hf, ?_⟩
-    rw [rread_eq, hi]; dsimp only; rw [hcell]
-  · intro a c hc hk; exact (hI.2 a c hc).2.2 hk
-  · intro i h hi hk
-    obtain ⟨c, hcell, hkc⟩ := live_cell s hI h (mem_of_getD _ _ _ hi)
-    obtain ⟨hc, hf⟩ := (cell_ok _ _ _).1 hcell
-    have hstrong := ((hI.2 h.addr c hc).1 (by rw [hkc]; exact hk) hf).1
-    have hdec := cnt_set_none h.addr s.table i h hi
-    simp only [if_true] at hdec
-    refine ⟨⟨s.heap.set h.addr { c with strong := c.strong - 1, freed := c.strong - 1 == 0 }, s.table.set i none⟩,
-      { c with strong := c.strong - 1, freed := c.strong - 1 == 0 }, ?_, rfl, ?_, hdec, ?_, ?_⟩
-    · rw [rdrop_eq, hi]; simp only [hk, if_true]; rw [hcell]
-    · show (s.heap.set h.addr _)[h.addr]? = _
-      rw [get_set _ _ _ (cell_lt _ _ _ hcell)]; simp
-    · show (c.strong - 1 == 0) = true ↔ _
-      simp only [beq_iff_eq]; omega
-    · intro hfr
-      change (c.strong - 1 == 0) = false at hfr
-      show c.strong - 1 = cnt h.addr (s.table.set i none)
-      omega
-
-/-- non-vacuity: an `Arc` cell with two handles survives the first drop and is freed by the second -/
-example : hrun [] RState.empty [.alloc .arcMutex 3, .clone 0, .drop 0] =
-    .ok ⟨[⟨.arcMutex, 3, false, 1⟩], [none, some ⟨.arcMutex, 0, false⟩]⟩ := by rfl
-example : hrun [] RState.empty [.alloc .arcMutex 3, .clone 0, .drop 0, .drop 1] =
-    .ok ⟨[⟨.arcMutex, 3, true, 0⟩], [none, none]⟩ := by rfl
-example : Reachable ⟨[⟨.arcMutex, 3, false, 1⟩], [none, some ⟨.arcMutex, 0, false⟩]⟩ :=
-  ⟨[], [.alloc .arcMutex 3, .clone 0, .drop 0], rfl⟩
-
-/-! ### no fault -/
-
-/-- the slot a statement names -/
-def opArg : HOp → Option Nat
-  | .alloc _ _ => none
-  | .clone i => some i
-  | .toDynClone i => some i
-  | .toDynMove i => some i
-  | .read i => some i
-  | .write i _ => some i
-  | .drop i => some i
-
-def opIsToDyn : HOp → Bool
-  | .toDynClone _ => true
-  | .toDynMove _ => true
-  | _ => false
-
-/-- the statement names a slot that currently holds a handle -/
-def usesLive (s : RState) (op : HOp) : Prop := ∀ i, opArg op = some i → ∃ h, s.table.getD i none = some h
-
-/-- if the statement is a `to_dyn!`, the calling crate gets an arm for the variant of the handle it names -/
-def converts (feats : List String) (s : RState) (op : HOp) : Prop :=
-  opIsToDyn op = true → ∀ i h, opArg op = some i → s.table.getD i none = some h → toDynHasArm feats h.variant = true
-
-/-- one statement on a live slot, under the invariant: it succeeds, or it is a `to_dyn!` of a variant without a usable
-arm and panics with `unimplemented!()` — never a memory fault, never a dead handle -/
-theorem exec_no_fault (feats : List String) (s : RState) (op : HOp) (hI : HInv s) (hl : usesLive s op) :
-    (∃ s', hexec feats s op = .ok s') ∨
-    (hexec feats s op = .error (.panic .unimpl) ∧ ¬ converts feats s op) := by
-  cases op with
-  | alloc k v => exact Or.inl ⟨_, rfl⟩
-  | clone i =>
-    obtain ⟨h, hi⟩ := hl i rfl
-    obtain ⟨c, hcell, _⟩ := live_cell s hI h (mem_of_getD _ _ _ hi)
-    left
-    simp only [hexec, rclone_eq, hi, hcell]
-    cases h.variant.counted <;> simp
-  | toDynClone i =>
-    obtain ⟨h, hi⟩ := hl i rfl
-    obtain ⟨c, hcell, _⟩ := live_cell s hI h (mem_of_getD _ _ _ hi)
-    simp only [hexec, rtoDynClone_eq, hi, hcell]
-    cases harm : toDynHasArm feats h.variant with
-    | true => left; cases h.variant.counted <;> simp
-    | false =>
-      right
-      refine ⟨by cases h.variant.counted <;> simp, fun hcv => ?_⟩
-      have := hcv rfl i h rfl hi
-      rw [harm] at this; cases this
-  | toDynMove i =>
-    obtain ⟨h, hi⟩ := hl i rfl
-    simp only [hexec, rtoDynMove_eq, hi]
-    cases harm : toDynHasArm feats h.variant with
-    | true => left; simp
-    | false =>
-      right
-      refine ⟨by simp, fun hcv => ?_⟩
-      have := hcv rfl i h rfl hi
-      rw [harm] at this; cases this
-  | read i =>
-    obtain ⟨h, hi⟩ := hl i rfl
-    obtain ⟨c, hcell, _⟩ := live_cell s hI h (mem_of_getD _ _ _ hi)
-    left
-    simp only [hexec, rread_eq, hi, hcell]
-    exact ⟨_, rfl⟩
-  | write i v =>
-    obtain ⟨h, hi⟩ := hl i rfl
-    obtain ⟨c, hcell, _⟩ := live_cell s hI h (mem_of_getD _ _ _ hi)
-    left
-    simp only [hexec, rwrite_eq, hi, hcell]
-    exact ⟨_, rfl⟩
-  | drop i =>
-    obtain ⟨h, hi⟩ := hl i rfl
-    obtain ⟨c, hcell, _⟩ := live_cell s hI h (mem_of_getD _ _ _ hi)
-    left
-    simp only [hexec, rdrop_eq, hi, hcell]
-    cases h.variant.counted <;> simp
-
-/-- a program every statement of which names a slot that is live WHEN THE STATEMENT RUNS -/
-def UsesLiveHandles (feats : List String) : RState → List HOp → Prop
-  | _, [] => True
-  | s, op :: rest => usesLive s op ∧ ∀ s', hexec feats s op = .ok s' → UsesLiveHandles feats s' rest
-
-/-- … and every `to_dyn!` of which is of a variant the calling crate gets an arm for -/
-def ConvertsListed (feats : List String) : RState → List HOp → Prop
-  | _, [] => True
-  | s, op :: rest => converts feats s op ∧ ∀ s', hexec feats s op = .ok s' → ConvertsListed feats s' rest
-
-theorem ulh_cons (feats : List String) (s : RState) (op : HOp) (rest : List HOp) :
-    UsesLiveHandles feats s (op :: rest) ↔
-      usesLive s op ∧ ∀ s', hexec feats s op = .ok s' → UsesLiveHandles feats s' rest := Iff.rfl
-
-theorem no_fault_of_inv (feats : List String) (s : RState) (ops : List HOp) (hI : HInv s)
-    (hwf : UsesLiveHandles feats s ops) :
-    ((∃ s', hrun feats s ops = .ok s') ∨ hrun feats s ops = .error (.panic .unimpl)) ∧
-    (ConvertsListed feats s ops → ∃ s', hrun feats s ops = .ok s') := by
-  induction ops generalizing s with
-  | nil => exact ⟨Or.inl ⟨s, rfl⟩, fun _ => ⟨s, rfl⟩⟩
-  | cons op rest ih =>
-    obtain ⟨hl, hrest⟩ := hwf
-    rcases exec_no_fault feats s op hI hl with ⟨s1, he⟩ | ⟨he, hnc⟩
-    · rw [hrun_cons_ok feats s s1 op rest he]
-      have := ih s1 (hinv_exec feats s s1 op hI he) (hrest s1 he)
-      exact ⟨this.1, fun hcv => this.2 (hcv.2 s1 he)⟩
-    · rw [hrun_cons_err feats s op rest _ he]
-      exact ⟨Or.inr rfl, fun hcv => absurd hcv.1 hnc⟩
-
-/-- **Well-formed programs never fault.** From any reachable heap, a program that only names slots holding a handle at
-the time (no use of a dropped / moved / never-created `Reference`) never hits a dangling address, a freed cell or a
-dead handle: it runs to completion, or stops at the `unimplemented!()` of a `to_dyn!` whose variant has no arm in the
-calling crate; if every conversion is of a variant with an arm, it runs to completion. -/
-theorem no_fault_on_live_handles (feats : List String) (s : RState) (ops : List HOp) (hr : Reachable s)
-    (hwf : UsesLiveHandles feats s ops) :
-    ((∃ s', hrun feats s ops = .ok s') ∨ hrun feats s ops = .error (.panic .unimpl)) ∧
-    (ConvertsListed feats s ops → ∃ s', hrun feats s ops = .ok s') :=
-  no_fault_of_inv feats s ops (hinv_reachable s hr) hwf
-
-/-- non-vacuity: a well-formed program (clone, convert by move, write through the trait object, drop the clone) -/
-example : UsesLiveHandles ["std"] RState.empty
-    [.alloc .rcRefCell 1, .clone 0, .toDynMove 0, .write 2 9, .drop 1, .read 2] := by
-  refine (ulh_cons _ _ _ _).2 ⟨fun i hi => (by cases hi), fun s1 h1 => ?_⟩
-  obtain rfl : _ = s1 := Except.ok.inj h1
-  refine (ulh_cons _ _ _ _).2 ⟨fun i hi => (by cases hi; exact ⟨_, rfl⟩), fun s2 h2 => ?_⟩
-  obtain rfl : _ = s2 := Except.ok.inj h2
-  refine (ulh_cons _ _ _ _).2 ⟨fun i hi => (by cases hi; exact ⟨_, rfl⟩), fun s3 h3 => ?_⟩
-  obtain rfl : _ = s3 := Except.ok.inj h3
-  refine (ulh_cons _ _ _ _).2 ⟨fun i hi => (by cases hi; exact ⟨_, rfl⟩), fun s4 h4 => ?_⟩
-  obtain rfl : _ = s4 := Except.ok.inj h4
-  refine (ulh_cons _ _ _ _).2 ⟨fun i hi => (by cases hi; exact ⟨_, rfl⟩), fun s5 h5 => ?_⟩
-  obtain rfl : _ = s5 := Except.ok.inj h5
-  exact (ulh_cons _ _ _ _).2 ⟨fun i hi => (by cases hi; exact ⟨_, rfl⟩), fun _ _ => trivial⟩
-example : hrun ["std"] RState.empty [.alloc .rcRefCell 1, .clone 0, .toDynMove 0, .write 2 9, .drop 1, .read 2] =
-    .ok ⟨[⟨.rcRefCell, 9, false, 1⟩], [none, none, some ⟨.rcRefCell, 0, true⟩]⟩ := by rfl
-/-- … whereas a program that uses a dropped handle is stopped -/
-example : hrun [] RState.empty [.alloc .rcRefCell 1, .drop 0, .read 0] = .error .deadHandle := by rfl
-
-/-! ### aliasing: what a statement does to the cells it is not about -/
-
-/-- the address a statement writes a payload to -/
-def writeAddr (s : RState) : HOp → Option Nat
-  | .write i _ => (s.table.getD i none).map (·.addr)
-  | _ => none
-
-theorem frame_set (hp : Heap) (b : Nat) (cb cb' : HCell) (hb : hp.cell b = .ok cb) (hk : cb'.kind = cb.kind)
-    (a : Nat) (c : HCell) (hc : hp[a]? = some c) :
-    ∃ c', (hp.set b cb')[a]? = some c' ∧ c'.kind = c.kind ∧ ((a = b → cb'.value = cb.value) → c'.value = c.value) := by
-  rw [get_set _ _ _ (cell_lt _ _ _ hb)]
-  by_cases hab : a = b
-  · subst hab
-    have := ((cell_ok _ _ _).1 hb).1
-    rw [hc] at this; simp only [Option.some.injEq] at this; subst this
-    exact ⟨cb', by simp, hk, fun h => h rfl⟩
-  · exact ⟨c, by simp [hab, hc], rfl, fun _ => rfl⟩
-
-theorem mem_push (t : List (Option RHandle)) (h h' g : RHandle) (hm : some h ∈ t) (ha : h'.addr = h.addr)
-    (hv : h'.variant = h.variant) (hg : some g ∈ t ++ [some h']) :
-    ∃ g0, some g0 ∈ t ∧ g.addr = g0.addr ∧ g.variant = g0.variant := by
-  rcases List.mem_append.1 hg with hg | hg
-  · exact ⟨g, hg, rfl, rfl⟩
-  · simp only [List.mem_singleton, Option.some.injEq] at hg
-    subst hg; exact ⟨h, hm, ha, hv⟩
-
-theorem mem_unset (t : List (Option RHandle)) (i : Nat) (g : RHandle) (hg : some g ∈ t.set i none) : some g ∈ t := by
-  rcases List.mem_or_eq_of_mem_set hg with hg | hg
-  · exact hg
-  · cases hg
-
-/-- every statement: (1) keeps every allocated cell allocated, of the same kind, and — unless it is a write to that very
-address — with the same payload; (2) unless it is a constructor, allocates nothing and only hands out handles to
-addresses (and of variants) that live handles already had -/
-theorem exec_frame (feats : List String) (s s' : RState) (op : HOp) (he : hexec feats s op = .ok s') :
-    (∀ (a : Nat) (c : HCell), s.heap[a]? = some c →
-      ∃ c', s'.heap[a]? = some c' ∧ c'.kind = c.kind ∧ (writeAddr s op ≠ some a → c'.value = c.value)) ∧
-    ((∀ k v, op ≠ .alloc k v) → s'.heap.length = s.heap.length ∧
-      ∀ g, some g ∈ s'.table → ∃ g0, some g0 ∈ s.table ∧ g.addr = g0.addr ∧ g.variant = g0.variant) := by
-  have hsame : ∀ (a : Nat) (c : HCell), s.heap[a]? = some c →
-      ∃ c', s.heap[a]? = some c' ∧ c'.kind = c.kind ∧ (writeAddr s op ≠ some a → c'.value = c.value) :=
-    fun a c hc => ⟨c, hc, rfl, fun _ => rfl⟩
-  cases op with
-  | alloc k v =>
-    simp only [hexec, Except.ok.injEq] at he
-    subst he
-    refine ⟨fun a c hc => ⟨c, ?_, rfl, fun _ => rfl⟩, fun hna => absurd rfl (hna k v)⟩
-    have hlt : a < s.heap.length := by
-      by_cases hlt : a < s.heap.length
-      · exact hlt
-      · rw [List.getElem?_eq_none (Nat.le_of_not_lt hlt)] at hc; cases hc
-    show (s.heap ++ _)[a]? = some c
-    rw [List.getElem?_append_left hlt]; exact hc
-  | clone i =>
-    simp only [hexec, rclone_eq] at he
-    cases hi : s.table.getD i none with
-    | none => rw [hi] at he; cases he
-    | some h =>
-      rw [hi] at he
-      have hm := mem_of_getD _ _ _ hi
-      cases hk : h.variant.counted with
-      | false =>
-        simp only [hk, Bool.false_eq_true, if_false, Except.ok.injEq] at he
-        subst he
-        exact ⟨hsame, fun _ => ⟨rfl, fun g hg => mem_push _ h h g hm rfl rfl hg⟩⟩
-      | true =>
-        simp only [hk, if_true] at he
-        cases hcell : s.heap.cell h.addr with
-        | error e => rw [hcell] at he; cases he
-        | ok c =>
-          rw [hcell] at he
-          simp only [Except.ok.injEq] at he
-          subst he
-          refine ⟨fun a c0 hc0 => ?_, fun _ => ⟨List.length_set, fun g hg => mem_push _ h h g hm rfl rfl hg⟩⟩
-          obtain ⟨c', h1, h2, h3⟩ := frame_set s.heap h.addr c { c with strong := c.strong + 1 } hcell rfl a c0 hc0
-          exact ⟨c', h1, h2, fun _ => h3 (fun _ => rfl)⟩
-  | toDynClone i =>
-    simp only [hexec, rtoDynClone_eq] at he
-    cases hi : s.table.getD i none with
-    | none => rw [hi] at he; cases he
-    | some h =>
-      rw [hi] at he
-      have hm := mem_of_getD _ _ _ hi
-      cases harm : toDynHasArm feats h.variant with
-      | false =>
-        cases hk : h.variant.counted with
-        | false => simp [hk, harm] at he
-        | true =>
-          simp only [hk, harm, if_true] at he
-          cases hcell : s.heap.cell h.addr <;> rw [hcell] at he <;> simp at he
-      | true =>
-        cases hk : h.variant.counted with
-        | false =>
-          simp only [hk, harm, Bool.false_eq_true, if_false, if_true, Except.ok.injEq] at he
-          subst he
-          exact ⟨hsame, fun _ => ⟨rfl, fun g hg => mem_push _ h { h with isDyn := true } g hm rfl rfl hg⟩⟩
-        | true =>
-          simp only [hk, harm, if_true] at he
-          cases hcell : s.heap.cell h.addr with
-          | error e => rw [hcell] at he; cases he
-          | ok c =>
-            rw [hcell] at he
-            simp only [Except.ok.injEq] at he
-            subst he
-            refine ⟨fun a c0 hc0 => ?_, fun _ => ⟨List.length_set, fun g hg => mem_push _ h { h with isDyn := true } g hm rfl rfl hg⟩⟩
-            obtain ⟨c', h1, h2, h3⟩ := frame_set s.heap h.addr c { c with strong := c.strong + 1 } hcell rfl a c0 hc0
-            exact ⟨c', h1, h2, fun _ => h3 (fun _ => rfl)⟩
-  | toDynMove i =>
-    simp only [hexec, rtoDynMove_eq] at he
-    cases hi : s.table.getD i none with
-    | none => rw [hi] at he; cases he
-    | some h =>
-      rw [hi] at he
-      have hm := mem_of_getD _ _ _ hi
-      cases harm : toDynHasArm feats h.variant with
-      | false => simp [harm] at he
-      | true =>
-        simp only [harm, if_true, Except.ok.injEq] at he
-        subst he
-        refine ⟨hsame, fun _ => ⟨rfl, fun g hg => ?_⟩⟩
-        rcases List.mem_append.1 hg with hg | hg
-        · exact ⟨g, mem_unset _ _ _ hg, rfl, rfl⟩
-        · simp only [List.mem_singleton, Option.some.injEq] at hg
-          subst hg; exact ⟨h, hm, rfl, rfl⟩
-  | read i =>
-    simp only [hexec] at he
-    cases hr : s.read i with
-    | error e => rw [hr] at he; cases he
-    | ok x =>
-      rw [hr] at he; simp only [Except.ok.injEq] at he; subst he
-      exact ⟨hsame, fun _ => ⟨rfl, fun g hg => ⟨g, hg, rfl, rfl⟩⟩⟩
-  | write i v =>
-    simp only [hexec, rwrite_eq] at he
-    cases hi : s.table.getD i none with
-    | none => rw [hi] at he; cases he
-    | some h =>
-      rw [hi] at he
-      dsimp only at he
-      cases hcell : s.heap.cell h.addr with
-      | error e => rw [hcell] at he; cases he
-      | ok c =>
-        rw [hcell] at he
-        simp only [Except.ok.injEq] at he
-        subst he
-        refine ⟨fun a c0 hc0 => ?_, fun _ => ⟨List.length_set, fun g hg => ⟨g, hg, rfl, rfl⟩⟩⟩
-        obtain ⟨c', h1, h2, h3⟩ := frame_set s.heap h.addr c { c with value := v } hcell rfl a c0 hc0
-        refine ⟨c', h1, h2, fun hne => h3 (fun hab => ?_)⟩
-        exfalso; apply hne
-        show (s.table.getD i none).map (·.addr) = some a
-        rw [hi, hab]; rfl
-  | drop i =>
-    simp only [hexec, rdrop_eq] at he
-    cases hi : s.table.getD i none with
-    | none => rw [hi] at he; cases he
-    | some h =>
-      rw [hi] at he
-      cases hk : h.variant.counted with
-      | false =>
-        simp only [hk, Bool.false_eq_true, if_false, Except.ok.injEq] at he
-        subst he
-        exact ⟨hsame, fun _ => ⟨rfl, fun g hg => ⟨g, mem_unset _ _ _ hg, rfl, rfl⟩⟩⟩
-      | true =>
-        simp only [hk, if_true] at he
-        cases hcell : s.heap.cell h.addr with
-        | error e => rw [hcell] at he; cases he
-        | ok c =>
-          rw [hcell] at he
-          simp only [Except.ok.injEq] at he
-          subst he
-          refine ⟨fun a c0 hc0 => ?_,
-            fun _ => ⟨List.length_set, fun g hg => ⟨g, mem_unset _ _ _ hg, rfl, rfl⟩⟩⟩
-          obtain ⟨c', h1, h2, h3⟩ := frame_set s.heap h.addr c
-            { c with strong := c.strong - 1, freed := c.strong - 1 == 0 } hcell rfl a c0 hc0
-          exact ⟨c', h1, h2, fun _ => h3 (fun _ => rfl)⟩
-
-/-- no statement of the program, at the time it runs, is a write through a handle to address `a` -/
-def QuietAt (feats : List String) (a : Nat) : RState → List HOp → Prop
-  | _, [] => True
-  | s, op :: rest => writeAddr s op ≠ some a ∧ ∀ s', hexec feats s op = .ok s' → QuietAt feats a s' rest
-
-theorem run_value_quiet (feats : List String) (s s' : RState) (ops : List HOp) (a : Nat) (c : HCell)
-    (hr : hrun feats s ops = .ok s') (hq : QuietAt feats a s ops) (hc : s.heap[a]? = some c) :
-    ∃ c', s'.heap[a]? = some c' ∧ c'.value = c.value := by
-  induction ops generalizing s c with
-  | nil => simp only [hrun, hrunWith, Except.ok.injEq] at hr; subst hr; exact ⟨c, hc, rfl⟩
-  | cons op rest ih =>
-    cases he : hexec feats s op with
-    | error e => rw [hrun_cons_err feats s op rest e he] at hr; cases hr
-    | ok s1 =>
-      rw [hrun_cons_ok feats s s1 op rest he] at hr
-      obtain ⟨c1, hc1, _, hv1⟩ := (exec_frame feats s s1 op he).1 a c hc
-      obtain ⟨c', hc', hv'⟩ := ih s1 c1 hr (hq.2 s1 he) hc1
-      exact ⟨c', hc', by rw [hv', hv1 hq.1]⟩
-
-theorem write_seen_of_inv (feats : List String) (s : RState) (hI : HInv s) (i : Nat) (h : RHandle) (v : Int)
-    (hi : s.table.getD i none = some h) :
-    ∃ s1, s.write i v = .ok s1 ∧
-      ∀ (ops : List HOp) (s2 : RState) (j : Nat) (h' : RHandle),
-        hrun feats s1 ops = .ok s2 → QuietAt feats h.addr s1 ops →
-        s2.table.getD j none = some h' → h'.addr = h.addr → s2.read j = .ok v := by
-  obtain ⟨c, hcell, _⟩ := live_cell s hI h (mem_of_getD _ _ _ hi)
-  refine ⟨⟨s.heap.set h.addr { c with value := v }, s.table⟩, ?_, ?_⟩
-  · rw [rwrite_eq, hi]; dsimp only; rw [hcell]
-  · intro ops s2 j h' hrun hq hj ha
-    have hI1 : HInv ⟨s.heap.set h.addr { c with value := v }, s.table⟩ := hinv_write s h.addr c v hI hcell
-    have hI2 := hinv_run feats _ s2 ops hI1 hrun
-    have hc1 : (s.heap.set h.addr { c with value := v })[h.addr]? = some { c with value := v } := by
-      rw [get_set _ _ _ (cell_lt _ _ _ hcell)]; simp
-    obtain ⟨c2, hc2, hv2⟩ := run_value_quiet feats _ s2 ops h.addr _ hrun hq hc1
-    obtain ⟨c2', hcell2, _⟩ := live_cell s2 hI2 h' (mem_of_getD _ _ _ hj)
-    have := ((cell_ok _ _ _).1 hcell2).1
-    rw [ha, hc2] at this; simp only [Option.some.injEq] at this; subst this
-    rw [rread_eq, hj]; dsimp only; rw [hcell2]
-    exact congrArg Except.ok hv2
-
-/-- **A write through any handle is read through every handle with the same address.** On every heap reachable by any
-program, a write of `v` through the handle in any live slot `i` succeeds, and afterwards — whatever further statements
-run (constructors, clones, `to_dyn!` conversions of either form, drops, reads, writes to OTHER addresses) — a read
-through ANY live slot `j` whose handle has the same address returns `v`: whether that handle is the original, a clone,
-a trait-object conversion, whatever its variant tag, and whether it existed at the time of the write or was made
-later. -/
-theorem write_seen_through_every_alias (feats : List String) (s : RState) (hr : Reachable s) (i : Nat) (h : RHandle)
-    (v : Int) (hi : s.table.getD i none = some h) :
-    ∃ s1, s.write i v = .ok s1 ∧
-      ∀ (ops : List HOp) (s2 : RState) (j : Nat) (h' : RHandle),
-        hrun feats s1 ops = .ok s2 → QuietAt feats h.addr s1 ops →
-        s2.table.getD j none = some h' → h'.addr = h.addr → s2.read j = .ok v :=
-  write_seen_of_inv feats s (hinv_reachable s hr) i h v hi
-
-/-- non-vacuity: two objects; write 7 through the clone of the first, then clone / convert / drop / write to the OTHER
-object; the original and the later-made trait object of the first read 7 -/
-example : hrun ["std"] RState.empty [.alloc .rcRefCell 1, .alloc .ptr 2, .clone 0, .write 2 7, .toDynClone 2, .drop 2,
-    .write 1 5] =
-    .ok ⟨[⟨.rcRefCell, 7, false, 2⟩, ⟨.ptr, 5, false, 0⟩],
-      [some ⟨.rcRefCell, 0, false⟩, some ⟨.ptr, 1, false⟩, none, some ⟨.rcRefCell, 0, true⟩]⟩ := by rfl
-example : (⟨[⟨.rcRefCell, 7, false, 2⟩, ⟨.ptr, 5, false, 0⟩],
-    [some ⟨.rcRefCell, 0, false⟩, some ⟨.ptr, 1, false⟩, none, some ⟨.rcRefCell, 0, true⟩]⟩ : RState).read 3 = .ok 7 := by
-  rfl
-
-theorem qa_cons (feats : List String) (a : Nat) (s : RState) (op : HOp) (rest : List HOp) :
-    QuietAt feats a s (op :: rest) ↔
-      writeAddr s op ≠ some a ∧ ∀ s', hexec feats s op = .ok s' → QuietAt feats a s' rest := Iff.rfl
-
-namespace HeapExamples
-/-- the state of that program just before the write of 7 (two objects, a clone of the first) -/
-def pre : RState :=
-  ⟨[⟨.rcRefCell, 1, false, 2⟩, ⟨.ptr, 2, false, 0⟩],
-    [some ⟨.rcRefCell, 0, false⟩, some ⟨.ptr, 1, false⟩, some ⟨.rcRefCell, 0, false⟩]⟩
-def post : RState :=
-  ⟨[⟨.rcRefCell, 7, false, 2⟩, ⟨.ptr, 2, false, 0⟩],
-    [some ⟨.rcRefCell, 0, false⟩, some ⟨.ptr, 1, false⟩, some ⟨.rcRefCell, 0, false⟩]⟩
-theorem pre_reachable : Reachable pre := ⟨["std"], [.alloc .rcRefCell 1, .alloc .ptr 2, .clone 0], rfl⟩
-/-- the statements after the write of 7 in that program are quiet at address 0 (the last one writes to address 1) -/
-theorem quiet : QuietAt ["std"] 0 post [.toDynClone 2, .drop 2, .write 1 5] := by
-  refine (qa_cons _ _ _ _ _).2 ⟨fun h => (by cases h), fun s1 h1 => ?_⟩
-  obtain rfl : _ = s1 := Except.ok.inj h1
-  refine (qa_cons _ _ _ _ _).2 ⟨fun h => (by cases h), fun s2 h2 => ?_⟩
-  obtain rfl : _ = s2 := Except.ok.inj h2
-  exact (qa_cons _ _ _ _ _).2 ⟨fun h => (by cases h), fun _ _ => trivial⟩
-end HeapExamples
-
-/-- the theorem applied to that program: every hypothesis is met, and the trait object made AFTER the write (slot 3)
-reads 7 -/
-example : ∃ s2, hrun ["std"] HeapExamples.post [.toDynClone 2, .drop 2, .write 1 5] = .ok s2 ∧ s2.read 3 = .ok 7 := by
-  obtain ⟨s1, hw, hseen⟩ :=
-    write_seen_through_every_alias ["std"] HeapExamples.pre HeapExamples.pre_reachable 2 ⟨.rcRefCell, 0, false⟩ 7 rfl
-  have h1 : HeapExamples.post = s1 := Except.ok.inj hw
-  subst h1
-  exact ⟨_, rfl, hseen _ _ 3 ⟨.rcRefCell, 0, true⟩ rfl HeapExamples.quiet rfl rfl⟩
-
-/-! ### end-to-end specifications of a statement interpreter, met by the model and violated by mutants -/
-
-/-- **clone aliasing, end to end**: in any state the interpreter reaches from nothing, after `let r_new = r_i.clone()`
-a write through `r_i` succeeds and is read through `r_new`, and a write through `r_new` is read through `r_i` -/
-def CloneAliasSpec (ex : RState → HOp → Except HFault RState) : Prop :=
-  ∀ (ops : List HOp) (s s1 : RState) (i : Nat) (v : Int),
-    hrunWith ex RState.empty ops = .ok s → ex s (.clone i) = .ok s1 →
-    (∃ s2, ex s1 (.write i v) = .ok s2) ∧
-    (∀ s2, ex s1 (.write i v) = .ok s2 → s2.read s.table.length = .ok v) ∧
-    (∀ s2, ex s1 (.write s.table.length v) = .ok s2 → s2.read i = .ok v)
-
-/-- **liveness, end to end**: in any state the interpreter reaches from nothing, every slot that holds a handle can be
-read (its target has not been freed under it) -/
-def LivenessSpec (ex : RState → HOp → Except HFault RState) : Prop :=
-  ∀ (ops : List HOp) (s : RState) (i : Nat) (h : RHandle),
-    hrunWith ex RState.empty ops = .ok s → s.table.getD i none = some h → ∃ x, s.read i = .ok x
-
-/-- **counting**: every state the interpreter reaches from nothing satisfies the invariant (count = number of handles) -/
-def CountSpec (ex : RState → HOp → Except HFault RState) : Prop :=
-  ∀ (ops : List HOp) (s : RState), hrunWith ex RState.empty ops = .ok s → HInv s
-
-theorem rclone_table (s s1 : RState) (i : Nat) (hc : s.clone i = .ok s1) :
-    ∃ h, s.table.getD i none = some h ∧ s1.table = s.table ++ [some h] := by
-  rw [rclone_eq] at hc
-  cases hi : s.table.getD i none with
-  | none => rw [hi] at hc; cases hc
-  | some h =>
-    rw [hi] at hc
-    refine ⟨h, rfl, ?_⟩
-    cases hk : h.variant.counted with
-    | false => simp only [hk, Bool.false_eq_true, if_false, Except.ok.injEq] at hc; subst hc; rfl
-    | true =>
-      simp only [hk, if_true] at hc
-      cases hcell : s.heap.cell h.addr with
-      | error e => rw [hcell] at hc; cases hc
-      | ok c => rw [hcell] at hc; simp only [Except.ok.injEq] at hc; subst hc; rfl
-
-theorem rwrite_table (s s1 : RState) (i : Nat) (v : Int) (hw : s.write i v = .ok s1) : s1.table = s.table := by
-  rw [rwrite_eq] at hw
-  cases hi : s.table.getD i none with
-  | none => rw [hi] at hw; cases hw
-  | some h =>
-    rw [hi] at hw; dsimp only at hw
-    cases hcell : s.heap.cell h.addr with
-    | error e => rw [hcell] at hw; cases hw
-    | ok c => rw [hcell] at hw; simp only [Except.ok.injEq] at hw; subst hw; rfl
-
-/-- the model meets the clone-aliasing specification, for every calling crate -/
-theorem clone_alias_spec (feats : List String) : CloneAliasSpec (hexec feats) := by
-  intro ops s s1 i v hrun hcl
-  have hI : HInv s := hinv_run feats _ s ops hinv_empty hrun
-  have hI1 : HInv s1 := hinv_exec feats s s1 (.clone i) hI hcl
-  obtain ⟨h, hi, ht⟩ := rclone_table s s1 i hcl
-  have hlt := getD_lt _ _ _ hi
-  have hi1 : s1.table.getD i none = some h := by rw [ht, getD_append_left _ _ _ _ hlt]; exact hi
-  have hn1 : s1.table.getD s.table.length none = some h := by rw [ht, getD_append_self]
-  obtain ⟨sa, hwa, hseen_a⟩ := write_seen_of_inv feats s1 hI1 i h v hi1
-  obtain ⟨sb, hwb, hseen_b⟩ := write_seen_of_inv feats s1 hI1 s.table.length h v hn1
-  refine ⟨⟨sa, hwa⟩, ?_, ?_⟩
-  · intro s2 hw
-    have : sa = s2 := Except.ok.inj (hwa.symm.trans hw)
-    subst this
-    refine hseen_a [] sa s.table.length h rfl trivial ?_ rfl
-    rw [rwrite_table s1 sa i v hwa]; exact hn1
-  · intro s2 hw
-    have : sb = s2 := Except.ok.inj (hwb.symm.trans hw)
-    subst this
-    refine hseen_b [] sb i h rfl trivial ?_ rfl
-    rw [rwrite_table s1 sb _ v hwb]; exact hi1
-
-/-- the model meets the liveness specification -/
-theorem liveness_spec (feats : List String) : LivenessSpec (hexec feats) := by
-  intro ops s i h hrun hi
-  have hI : HInv s := hinv_run feats _ s ops hinv_empty hrun
-  obtain ⟨c, hcell, _⟩ := live_cell s hI h (mem_of_getD _ _ _ hi)
-  exact ⟨c.value, by rw [rread_eq, hi]; dsimp only; rw [hcell]⟩
-
-/-- the model meets the counting specification -/
-theorem count_spec (feats : List String) : CountSpec (hexec feats) :=
-  fun ops s hrun => hinv_run feats _ s ops hinv_empty hrun
-
-/-- MUTANT 1: a `clone` that deep-copies — a new cell with a copy of the payload, and a handle to THAT -/
-def cloneDeep (hp : Heap) (h : RHandle) : Except HFault (Heap × RHandle) :=
-  match hp.cell h.addr with
-  | .error e => .error e
-  | .ok c => .ok (hp ++ [⟨c.kind, c.value, false, if c.kind.counted then 1 else 0⟩], ⟨h.variant, hp.length, h.isDyn⟩)
-
-/-- MUTANT 2: a `clone` that copies the pointer for EVERY variant — the `Rc` / `Arc` arms forget `Rc::clone` /
-`Arc::clone`, so the clone takes no share of the strong count -/
-def cloneNoBump (hp : Heap) (h : RHandle) : Except HFault (Heap × RHandle) := .ok (hp, h)
-
-/-- the machine with `clone` replaced -/
-def execMut (cl : Heap → RHandle → Except HFault (Heap × RHandle)) (feats : List String) (s : RState) :
-    HOp → Except HFault RState
-  | .clone i =>
-    match s.slot i with
-    | .error e => .error e
-    | .ok h =>
-      match cl s.heap h with
-      | .error e => .error e
-      | .ok (hp, h') => .ok ⟨hp, s.table ++ [some h']⟩
-  | op => hexec feats s op
-
-/-- with the real `clone` plugged in, this is the model's interpreter -/
-theorem execMut_real (feats : List String) (s : RState) (op : HOp) : execMut Heap.clone feats s op = hexec feats s op := by
-  cases op <;> rfl
-
-/-- the deep-copying clone violates `clone_preserves_address`: different address, and a cell was allocated -/
-example : cloneDeep [⟨.rcRefCell, 5, false, 1⟩] ⟨.rcRefCell, 0, false⟩ =
-    .ok ([⟨.rcRefCell, 5, false, 1⟩, ⟨.rcRefCell, 5, false, 1⟩], ⟨.rcRefCell, 1, false⟩) := by rfl
-
-/-- **the deep-copying clone violates aliasing** (`write_seen_through_every_alias` via `clone_preserves_address`, i.e.
-`CloneAliasSpec`): make an `Rc` object holding 0, clone it, write 7 through the original — the clone still reads 0 -/
-example : hrunWith (execMut cloneDeep []) RState.empty [.alloc .rcRefCell 0, .clone 0, .write 0 7] =
-    .ok ⟨[⟨.rcRefCell, 7, false, 1⟩, ⟨.rcRefCell, 0, false, 1⟩],
-      [some ⟨.rcRefCell, 0, false⟩, some ⟨.rcRefCell, 1, false⟩]⟩ := by rfl
-example : ¬ CloneAliasSpec (execMut cloneDeep []) := by
-  intro hspec
-  have h := (hspec [.alloc .rcRefCell 0] _ _ 0 7 rfl rfl).2.1 _ rfl
-  have h' : (0 : Int) = 7 := Except.ok.inj h
-  exact absurd h' (by decide)
-/-- the same program on the model: the clone reads 7 -/
-example : (hrun [] RState.empty [.alloc .rcRefCell 0, .clone 0, .write 0 7]).bind (fun s => s.read 1) = .ok 7 := by rfl
-
-/-- the forgetful clone violates the count clause of `clone_preserves_address`: the strong count stays 1 -/
-example : cloneNoBump [⟨.arcMutex, 5, false, 1⟩] ⟨.arcMutex, 0, false⟩ =
-    .ok ([⟨.arcMutex, 5, false, 1⟩], ⟨.arcMutex, 0, false⟩) := by rfl
-
-/-- **the `Arc` clone that does not bump the count violates liveness** (`counted_cell_live_while_any_handle`,
-`no_fault_on_live_handles`, i.e. `LivenessSpec` and `CountSpec`): make an `Arc<Mutex>` object, clone it, drop the
-original — the cell is freed although the clone (slot 1) is still live, and reading through it is a use after free -/
-example : hrunWith (execMut cloneNoBump []) RState.empty [.alloc .arcMutex 0, .clone 0, .drop 0] =
-    .ok ⟨[⟨.arcMutex, 0, true, 0⟩], [none, some ⟨.arcMutex, 0, false⟩]⟩ := by rfl
-example : (⟨[⟨.arcMutex, 0, true, 0⟩], [none, some ⟨.arcMutex, 0, false⟩]⟩ : RState).read 1 = .error .useAfterFree := by
-  rfl
-example : ¬ LivenessSpec (execMut cloneNoBump []) := by
-  intro hspec
-  obtain ⟨x, hx⟩ := hspec [.alloc .arcMutex 0, .clone 0, .drop 0] _ 1 ⟨.arcMutex, 0, false⟩ rfl rfl
-  have hx' : (Except.error HFault.useAfterFree : Except HFault Int) = .ok x := hx
-  cases hx'
-example : ¬ CountSpec (execMut cloneNoBump []) := by
-  intro hspec
-  have hI := hspec [.alloc .arcMutex 0, .clone 0] _ rfl
-  have := ((hI.2 0 ⟨.arcMutex, 0, false, 1⟩ rfl).1 rfl rfl).1
-  exact absurd this (by decide)
-/-- the same program on the model: the cell survives (count 2 → 1) and the clone reads 0 -/
-example : hrun [] RState.empty [.alloc .arcMutex 0, .clone 0, .drop 0] =
-    .ok ⟨[⟨.arcMutex, 0, false, 1⟩], [none, some ⟨.arcMutex, 0, false⟩]⟩ := by rfl
-
-/-! ## E. simulation: the heap machine with ONE allocation is the `RefCase` model the driver runs -/
-
-/-- the handle table as `RefCase` sees it: `some isDyn` for a live handle, `none` for a dead one -/
-def dyns (t : List (Option RHandle)) : List (Option Bool) := t.map (Option.map (·.isDyn))
-
-/-- **abstraction function**: the heap's cell 0 and the handle table, as a `RefCase` — variant = what the cell is,
-value = its payload, `dropped` = its `freed` flag (the strong count and the addresses are abstracted away) -/
-def absCase (s : RState) : RefCase :=
-  match s.heap[0]? with
-  | some c => ⟨c.kind, c.value, dyns s.table, c.freed⟩
-  | none => ⟨.ptr, 0, dyns s.table, false⟩
-
-/-- exactly one allocation: one cell, and every live handle points at it -/
-def OneAlloc (s : RState) : Prop := s.heap.length = 1 ∧ ∀ h, some h ∈ s.table → h.addr = 0
-
-/-- the simulation relation is `c = absCase s` on states satisfying the heap invariant with one allocation -/
-def Sim (s : RState) : Prop := HInv s ∧ OneAlloc s
-
-theorem dyns_getD (t : List (Option RHandle)) (i : Nat) : (dyns t).getD i none = (t.getD i none).map (·.isDyn) := by
-  simp only [dyns, List.getD_eq_getElem?_getD, List.getElem?_map]
-  cases t[i]? <;> rfl
-
-theorem dyns_append (t : List (Option RHandle)) (h : RHandle) : dyns (t ++ [some h]) = dyns t ++ [some h.isDyn] := by
-  simp [dyns]
-
-theorem dyns_set (t : List (Option RHandle)) (i : Nat) : dyns (t.set i none) = (dyns t).set i none := by
-  simp [dyns, List.map_set]
-
-theorem dyns_any (t : List (Option RHandle)) (h0 : ∀ h, some h ∈ t → h.addr = 0) :
-    (dyns t).any (·.isSome) = !(cnt 0 t == 0) := by
-  induction t with
-  | nil => rfl
-  | cons x r ih =>
-    have ihr := ih (fun h hm => h0 h (List.mem_cons_of_mem _ hm))
-    cases x with
-    | none => simpa [dyns, cnt] using ihr
-    | some g =>
-      have hg := h0 g (List.mem_cons_self ..)
-      simp [dyns, cnt, hg]
-
-theorem absCase_mk (hp : Heap) (t : List (Option RHandle)) (c : HCell) (hc : hp[0]? = some c) :
-    absCase ⟨hp, t⟩ = ⟨c.kind, c.value, dyns t, c.freed⟩ := by
-  simp only [absCase, hc]
-
-/-- what the relation gives for a live slot: its handle points at cell 0, which is allocated, of the handle's kind, not
-freed, and (if counted) whose strong count is the number of live handles -/
-theorem sim_live (s : RState) (hS : Sim s) (i : Nat) (h : RHandle) (hi : s.table.getD i none = some h) :
-    h.addr = 0 ∧ ∃ c, s.heap[0]? = some c ∧ s.heap.cell 0 = .ok c ∧ c.kind = h.variant ∧ c.freed = false ∧
-      (c.kind.counted = true → c.strong = cnt 0 s.table) := by
-  have hm := mem_of_getD _ _ _ hi
-  have h0 := hS.2.2 h hm
-  obtain ⟨c, hcell, hk⟩ := live_cell s hS.1 h hm
-  rw [h0] at hcell
-  obtain ⟨hc, hf⟩ := (cell_ok _ _ _).1 hcell
-  exact ⟨h0, c, hc, hcell, hk, hf, fun hcn => ((hS.1.2 0 c hc).1 hcn hf).1⟩
-
-theorem sim_cell (s : RState) (hS : Sim s) : ∃ c, s.heap[0]? = some c := by
-  have := hS.2.1
-  cases hh : s.heap with
-  | nil => rw [hh] at this; cases this
-  | cons c r => exact ⟨c, rfl⟩
-
-/-- the relation is preserved by every statement other than a constructor -/
-theorem sim_exec (feats : List String) (s s' : RState) (op : HOp) (hna : ∀ k v, op ≠ .alloc k v) (hS : Sim s)
-    (he : hexec feats s op = .ok s') : Sim s' := by
-  obtain ⟨hlen, hmem⟩ := (exec_frame feats s s' op he).2 hna
-  refine ⟨hinv_exec feats s s' op hS.1 he, by rw [hlen]; exact hS.2.1, fun g hg => ?_⟩
-  obtain ⟨g0, hg0, ha, _⟩ := hmem g hg
-  rw [ha]; exact hS.2.2 g0 hg0
-
-/-- a fresh one-object program is related to the fresh `RefCase` -/
-theorem sim_init (v : RefVariant) : Sim (RState.init v) ∧ absCase (RState.init v) = RefCase.init v := by
-  refine ⟨⟨hinv_alloc _ v 0 hinv_empty, rfl, fun h hm => ?_⟩, rfl⟩
-  simp only [RState.init, RState.alloc, RState.empty, Heap.alloc, List.nil_append, List.mem_singleton,
-    Option.some.injEq] at hm
-  subst hm; rfl
-
-/-- non-vacuity of the relation: every fresh case is in it; so is every state a case reaches (`simulation_step`) -/
-example : Sim (RState.init .arcMutex) := (sim_init _).1
-
-/-! ### each refined operation maps to the abstract one -/
-
-/-- `clone`: dead slot — both refuse; live slot — the refined clone succeeds and its result abstracts to the abstract
-clone's result -/
-theorem sim_clone (s : RState) (hS : Sim s) (i : Nat) :
-    (s.table.getD i none = none → s.clone i = .error .deadHandle ∧ (absCase s).clone i = none) ∧
-    (∀ h, s.table.getD i none = some h → ∃ s', s.clone i = .ok s' ∧ (absCase s).clone i = some (absCase s')) := by
-  obtain ⟨c0, hc0⟩ := sim_cell s hS
-  constructor
-  · intro hi
-    refine ⟨by rw [rclone_eq, hi], ?_⟩
-    rw [absCase_mk _ _ c0 hc0]
-    simp only [RefCase.clone, dyns_getD, hi, Option.map_none]
-  · intro h hi
-    obtain ⟨h0, c, hc, hcell, hk, hf, _⟩ := sim_live s hS i h hi
-    rw [rclone_eq, hi]; dsimp only; rw [h0]
-    have habs : (absCase s).clone i = some ⟨c.kind, c.value, dyns s.table ++ [some h.isDyn], c.freed⟩ := by
-      rw [absCase_mk _ _ c hc]
-      simp only [RefCase.clone, dyns_getD, hi, Option.map_some]
-    cases hcn : h.variant.counted with
-    | false =>
-      refine ⟨_, rfl, ?_⟩
-      rw [habs, absCase_mk _ _ c hc, dyns_append]
-    | true =>
-      simp only [if_true, hcell]
-      refine ⟨_, rfl, ?_⟩
-      have hlt := cell_lt _ _ _ hcell
-      rw [habs, absCase_mk _ _ { c with strong := c.strong + 1 } (by rw [get_set _ _ _ hlt]; simp), dyns_append]
-
-/-- `to_dyn!(Trait, clone)`: dead slot — both refuse; live slot with an arm — the refined conversion succeeds and its
-result abstracts to the abstract result; live slot without an arm — both panic with `unimplemented!()` -/
-theorem sim_toDyn (feats : List String) (s : RState) (hS : Sim s) (i : Nat) :
-    (s.table.getD i none = none →
-      s.toDynClone feats i = .error .deadHandle ∧ (absCase s).toDyn feats i = none) ∧
-    (∀ h, s.table.getD i none = some h →
-      (toDynHasArm feats h.variant = true →
-        ∃ s', s.toDynClone feats i = .ok s' ∧ (absCase s).toDyn feats i = some (.ok (absCase s'))) ∧
-      (toDynHasArm feats h.variant = false →
-        s.toDynClone feats i = .error (.panic .unimpl) ∧ (absCase s).toDyn feats i = some (.error .unimpl))) := by
-  obtain ⟨c0, hc0⟩ := sim_cell s hS
-  constructor
-  · intro hi
-    refine ⟨by rw [rtoDynClone_eq, hi], ?_⟩
-    rw [absCase_mk _ _ c0 hc0]
-    simp only [RefCase.toDyn, dyns_getD, hi, Option.map_none]
-  · intro h hi
-    obtain ⟨h0, c, hc, hcell, hk, hf, _⟩ := sim_live s hS i h hi
-    rw [rtoDynClone_eq, hi]; dsimp only; rw [h0]
-    constructor
-    · intro harm
-      have habs : (absCase s).toDyn feats i = some (.ok ⟨c.kind, c.value, dyns s.table ++ [some true], c.freed⟩) := by
-        rw [absCase_mk _ _ c hc]
-        simp only [RefCase.toDyn, dyns_getD, hi, Option.map_some, hk, harm, if_true]
-      cases hcn : h.variant.counted with
-      | false =>
-        simp only [harm, Bool.false_eq_true, if_false, if_true]
-        refine ⟨_, rfl, ?_⟩
-        rw [habs, absCase_mk _ _ c hc, dyns_append]
-      | true =>
-        simp only [harm, if_true, hcell]
-        refine ⟨_, rfl, ?_⟩
-        have hlt := cell_lt _ _ _ hcell
-        rw [habs, absCase_mk _ _ { c with strong := c.strong + 1 } (by rw [get_set _ _ _ hlt]; simp), dyns_append]
-    · intro harm
-      refine ⟨?_, ?_⟩
-      · cases hcn : h.variant.counted <;> simp [harm, hcell]
-      · rw [absCase_mk _ _ c hc]
-        simp only [RefCase.toDyn, dyns_getD, hi, Option.map_some, hk, harm]
-        rfl
-
-/-- `borrow()`: dead slot — both refuse; live slot — both return the same payload -/
-theorem sim_read (s : RState) (hS : Sim s) (i : Nat) :
-    (s.table.getD i none = none → s.read i = .error .deadHandle ∧ (absCase s).read i = none) ∧
-    (∀ h, s.table.getD i none = some h → ∃ x, s.read i = .ok x ∧ (absCase s).read i = some x) := by
-  obtain ⟨c0, hc0⟩ := sim_cell s hS
-  constructor
-  · intro hi
-    refine ⟨by rw [rread_eq, hi], ?_⟩
-    rw [absCase_mk _ _ c0 hc0]
-    simp only [RefCase.read, RefCase.handleLive, dyns_getD, hi, Option.map_none]
-    rfl
-  · intro h hi
-    obtain ⟨h0, c, hc, hcell, hk, hf, _⟩ := sim_live s hS i h hi
-    refine ⟨c.value, by rw [rread_eq, hi]; dsimp only; rw [h0, hcell], ?_⟩
-    rw [absCase_mk _ _ c hc]
-    simp only [RefCase.read, RefCase.handleLive, dyns_getD, hi, Option.map_some]
-    rfl
-
-/-- `*borrow_mut() = v` -/
-theorem sim_write (s : RState) (hS : Sim s) (i : Nat) (v : Int) :
-    (s.table.getD i none = none → s.write i v = .error .deadHandle ∧ (absCase s).write i v = none) ∧
-    (∀ h, s.table.getD i none = some h →
-      ∃ s', s.write i v = .ok s' ∧ (absCase s).write i v = some (absCase s')) := by
-  obtain ⟨c0, hc0⟩ := sim_cell s hS
-  constructor
-  · intro hi
-    refine ⟨by rw [rwrite_eq, hi], ?_⟩
-    rw [absCase_mk _ _ c0 hc0]
-    simp only [RefCase.write, RefCase.handleLive, dyns_getD, hi, Option.map_none]
-    rfl
-  · intro h hi
-    obtain ⟨h0, c, hc, hcell, hk, hf, _⟩ := sim_live s hS i h hi
-    have hlt := cell_lt _ _ _ hcell
-    refine ⟨⟨s.heap.set 0 { c with value := v }, s.table⟩, by rw [rwrite_eq, hi]; dsimp only; rw [h0, hcell], ?_⟩
-    rw [absCase_mk _ _ c hc, absCase_mk _ _ { c with value := v } (by rw [get_set _ _ _ hlt]; simp)]
-    simp only [RefCase.write, RefCase.handleLive, dyns_getD, hi, Option.map_some]
-    rfl
-
-/-- `drop`: the abstract model COMPUTES `dropped` from its handle table; the heap machine decrements a count — they agree -/
-theorem sim_drop (s : RState) (hS : Sim s) (i : Nat) :
-    (s.table.getD i none = none → s.drop i = .error .deadHandle ∧ (absCase s).drop i = none) ∧
-    (∀ h, s.table.getD i none = some h → ∃ s', s.drop i = .ok s' ∧ (absCase s).drop i = some (absCase s')) := by
-  obtain ⟨c0, hc0⟩ := sim_cell s hS
-  constructor
-  · intro hi
-    refine ⟨by rw [rdrop_eq, hi], ?_⟩
-    rw [absCase_mk _ _ c0 hc0]
-    simp only [RefCase.drop, RefCase.handleLive, dyns_getD, hi, Option.map_none]
-    rfl
-  · intro h hi
-    obtain ⟨h0, c, hc, hcell, hk, hf, hstrong⟩ := sim_live s hS i h hi
-    have hlt := cell_lt _ _ _ hcell
-    have hall : ∀ g, some g ∈ s.table.set i none → g.addr = 0 := fun g hg => hS.2.2 g (mem_unset _ _ _ hg)
-    have hany := dyns_any (s.table.set i none) hall
-    rw [dyns_set] at hany
-    have hdec := cnt_set_none 0 s.table i h hi
-    simp only [h0, if_true] at hdec
-    have habs : (absCase s).drop i = some ⟨c.kind, c.value, (dyns s.table).set i none,
-        c.freed || (c.kind.counted && !(((dyns s.table).set i none).any (·.isSome)))⟩ := by
-      rw [absCase_mk _ _ c hc]
-      simp only [RefCase.drop, RefCase.handleLive, dyns_getD, hi, Option.map_some]
-      rfl
-    rw [rdrop_eq, hi]; dsimp only; rw [h0]
-    cases hcn : h.variant.counted with
-    | false =>
-      refine ⟨_, rfl, ?_⟩
-      rw [habs, absCase_mk _ _ c hc, dyns_set, hk, hcn]
-      simp
-    | true =>
-      simp only [if_true, hcell]
-      refine ⟨_, rfl, ?_⟩
-      have hs := hstrong (by rw [hk]; exact hcn)
-      have hfre : (c.strong - 1 == 0) = (cnt 0 (s.table.set i none) == 0) := by
-        have : c.strong - 1 = cnt 0 (s.table.set i none) := by omega
-        rw [this]
-      rw [habs, absCase_mk _ _ { c with strong := c.strong - 1, freed := c.strong - 1 == 0 }
-        (by rw [get_set _ _ _ hlt]; simp), dyns_set, hany, hfre, hk, hcn, hf]
-      simp
-
-/-! ### the driver's event loop, on both models -/
-
-/-- the events of the correspondence protocol (`Rrtk/Drv/Rf.lean`: `cl:h dy:h rd:h wr:h:x inc:h dr:h live`) -/
-inductive Ev where
-  | cl (h : Nat) | dy (h : Nat) | rd (h : Nat) | wr (h : Nat) (x : Int) | inc (h : Nat) | dr (h : Nat) | live
-  deriving DecidableEq, Repr
-
-/-- what an event emits: `-`, a value, a flag; or it stops the case — `bad` (a `need` failed: dead handle), a panic;
-`fault`: a memory fault of the heap machine (the abstract model has no such thing) -/
-inductive Out where
-  | done | val (x : Int) | flag (b : Bool) | bad | panic (p : Panic) | fault (e : HFault)
-  deriving DecidableEq, Repr
-
-/-- one event on the abstract model, exactly as `Drv.runRf` runs it (same `RefCase` functions, `need` ↦ `bad`,
-`liftP` ↦ `panic`) -/
-def absEvent (feats : List String) (c : RefCase) : Ev → Except Out (RefCase × Out)
-  | .cl h => match c.clone h with
-    | some c' => .ok (c', .done)
-    | none => .error .bad
-  | .dy h => match c.toDyn feats h with
-    | none => .error .bad
-    | some (.ok c') => .ok (c', .done)
-    | some (.error p) => .error (.panic p)
-  | .rd h => match c.read h with
-    | some x => .ok (c, .val x)
-    | none => .error .bad
-  | .wr h x => match c.write h x with
-    | some c' => .ok (c', .done)
-    | none => .error .bad
-  | .inc h => match c.read h with
-    | none => .error .bad
-    | some x => match c.write h (x + 1) with
-      | some c' => .ok (c', .done)
-      | none => .error .bad
-  | .dr h => match c.drop h with
-    | some c' => .ok (c', .done)
-    | none => .error .bad
-  | .live => .ok (c, .flag c.live)
-
-def faultOut : HFault → Out
-  | .deadHandle => .bad
-  | .panic p => .panic p
-  | e => .fault e
-
-/-- the same event on the heap machine -/
-def heapEvent (feats : List String) (s : RState) : Ev → Except Out (RState × Out)
-  | .cl h => match s.clone h with
-    | .ok s' => .ok (s', .done)
-    | .error e => .error (faultOut e)
-  | .dy h => match s.toDynClone feats h with
-    | .ok s' => .ok (s', .done)
-    | .error e => .error (faultOut e)
-  | .rd h => match s.read h with
-    | .ok x => .ok (s, .val x)
-    | .error e => .error (faultOut e)
-  | .wr h x => match s.write h x with
-    | .ok s' => .ok (s', .done)
-    | .error e => .error (faultOut e)
-  | .inc h => match s.read h with
-    | .error e => .error (faultOut e)
-    | .ok x => match s.write h (x + 1) with
-      | .ok s' => .ok (s', .done)
-      | .error e => .error (faultOut e)
-  | .dr h => match s.drop h with
-    | .ok s' => .ok (s', .done)
-    | .error e => .error (faultOut e)
-  | .live => .ok (s, .flag (match s.heap[0]? with
-    | some c => !c.freed
-    | none => true))
-
-/-- the output of a case: one token per event, the first `bad` / panic / fault ends it -/
-def absRun (feats : List String) : RefCase → List Ev → List Out
-  | _, [] => []
-  | c, e :: rest =>
-    match absEvent feats c e with
-    | .ok (c', o) => o :: absRun feats c' rest
-    | .error o => [o]
-
-def heapRun (feats : List String) : RState → List Ev → List Out
-  | _, [] => []
-  | s, e :: rest =>
-    match heapEvent feats s e with
-    | .ok (s', o) => o :: heapRun feats s' rest
-    | .error o => [o]
-
-theorem not_alloc_clone (i : Nat) : ∀ k v, HOp.clone i ≠ .alloc k v := fun _ _ h => by cases h
-theorem not_alloc_toDynClone (i : Nat) : ∀ k v, HOp.toDynClone i ≠ .alloc k v := fun _ _ h => by cases h
-theorem not_alloc_write (i : Nat) (x : Int) : ∀ k v, HOp.write i x ≠ .alloc k v := fun _ _ h => by cases h
-theorem not_alloc_drop (i : Nat) : ∀ k v, HOp.drop i ≠ .alloc k v := fun _ _ h => by cases h
-
-/-- **Simulation, one event.** On related states every event of the protocol does the same thing on both models: the
-abstract model stops iff the heap machine stops, with the same token (never a memory fault, since the abstract model
-has none); otherwise they emit the same token, and the new heap state abstracts to the new abstract state and is again
-in the relation. -/
-theorem simulation_step (feats : List String) (s : RState) (e : Ev) (hS : Sim s) :
-    absEvent feats (absCase s) e =
-      (match heapEvent feats s e with
-       | .ok (s', o) => .ok (absCase s', o)
-       | .error o => .error o) ∧
-    (∀ s' o, heapEvent feats s e = .ok (s', o) → Sim s') := by
-  cases e with
-  | cl i =>
-    cases hi : s.table.getD i none with
-    | none =>
-      obtain ⟨h1, h2⟩ := (sim_clone s hS i).1 hi
-      simp only [absEvent, heapEvent, h1, h2, faultOut]
-      exact ⟨trivial, fun s' o he => by cases he⟩
-    | some g =>
-      obtain ⟨s1, h1, h2⟩ := (sim_clone s hS i).2 g hi
-      simp only [absEvent, heapEvent, h1, h2]
-      refine ⟨trivial, fun s' o he => ?_⟩
-      simp only [Except.ok.injEq, Prod.mk.injEq] at he
-      obtain ⟨rfl, _⟩ := he
-      exact sim_exec feats s s1 (.clone i) (not_alloc_clone i) hS h1
-  | dy i =>
-    cases hi : s.table.getD i none with
-    | none =>
-      obtain ⟨h1, h2⟩ := (sim_toDyn feats s hS i).1 hi
-      simp only [absEvent, heapEvent, h1, h2, faultOut]
-      exact ⟨trivial, fun s' o he => by cases he⟩
-    | some g =>
-      cases harm : toDynHasArm feats g.variant with
-      | true =>
-        obtain ⟨s1, h1, h2⟩ := ((sim_toDyn feats s hS i).2 g hi).1 harm
-        simp only [absEvent, heapEvent, h1, h2]
-        refine ⟨trivial, fun s' o he => ?_⟩
-        simp only [Except.ok.injEq, Prod.mk.injEq] at he
-        obtain ⟨rfl, _⟩ := he
-        exact sim_exec feats s s1 (.toDynClone i) (not_alloc_toDynClone i) hS h1
-      | false =>
-        obtain ⟨h1, h2⟩ := ((sim_toDyn feats s hS i).2 g hi).2 harm
-        simp only [absEvent, heapEvent, h1, h2, faultOut]
-        exact ⟨trivial, fun s' o he => by cases he⟩
-  | rd i =>
-    cases hi : s.table.getD i none with
-    | none =>
-      obtain ⟨h1, h2⟩ := (sim_read s hS i).1 hi
-      simp only [absEvent, heapEvent, h1, h2, faultOut]
-      exact ⟨trivial, fun s' o he => by cases he⟩
-    | some g =>
-      obtain ⟨x, h1, h2⟩ := (sim_read s hS i).2 g hi
-      simp only [absEvent, heapEvent, h1, h2]
-      refine ⟨trivial, fun s' o he => ?_⟩
-      simp only [Except.ok.injEq, Prod.mk.injEq] at he
-      obtain ⟨rfl, _⟩ := he
-      exact hS
-  | wr i x =>
-    cases hi : s.table.getD i none with
-    | none =>
-      obtain ⟨h1, h2⟩ := (sim_write s hS i x).1 hi
-      simp only [absEvent, heapEvent, h1, h2, faultOut]
-      exact ⟨trivial, fun s' o he => by cases he⟩
-    | some g =>
-      obtain ⟨s1, h1, h2⟩ := (sim_write s hS i x).2 g hi
-      simp only [absEvent, heapEvent, h1, h2]
-      refine ⟨trivial, fun s' o he => ?_⟩
-      simp only [Except.ok.injEq, Prod.mk.injEq] at he
-      obtain ⟨rfl, _⟩ := he
-      exact sim_exec feats s s1 (.write i x) (not_alloc_write i x) hS h1
-  | inc i =>
-    cases hi : s.table.getD i none with
-    | none =>
-      obtain ⟨h1, h2⟩ := (sim_read s hS i).1 hi
-      simp only [absEvent, heapEvent, h1, h2, faultOut]
-      exact ⟨trivial, fun s' o he => by cases he⟩
-    | some g =>
-      obtain ⟨x, h1, h2⟩ := (sim_read s hS i).2 g hi
-      obtain ⟨s1, h3, h4⟩ := (sim_write s hS i (x + 1)).2 g hi
-      simp only [absEvent, heapEvent, h1, h2, h3, h4]
-      refine ⟨trivial, fun s' o he => ?_⟩
-      simp only [Except.ok.injEq, Prod.mk.injEq] at he
-      obtain ⟨rfl, _⟩ := he
-      exact sim_exec feats s s1 (.write i (x + 1)) (not_alloc_write i (x + 1)) hS h3
-  | dr i =>
-    cases hi : s.table.getD i none with
-    | none =>
-      obtain ⟨h1, h2⟩ := (sim_drop s hS i).1 hi
-      simp only [absEvent, heapEvent, h1, h2, faultOut]
-      exact ⟨trivial, fun s' o he => by cases he⟩
-    | some g =>
-      obtain ⟨s1, h1, h2⟩ := (sim_drop s hS i).2 g hi
-      simp only [absEvent, heapEvent, h1, h2]
-      refine ⟨trivial, fun s' o he => ?_⟩
-      simp only [Except.ok.injEq, Prod.mk.injEq] at he
-      obtain ⟨rfl, _⟩ := he
-      exact sim_exec feats s s1 (.drop i) (not_alloc_drop i) hS h1
-  | live =>
-    obtain ⟨c0, hc0⟩ := sim_cell s hS
-    refine ⟨?_, fun s' o he => ?_⟩
-    · simp only [absEvent, heapEvent, hc0]
-      rw [absCase_mk _ _ c0 hc0]
-      rfl
-    · simp only [heapEvent, Except.ok.injEq, Prod.mk.injEq] at he
-      obtain ⟨rfl, _⟩ := he
-      exact hS
-
-/-- **Simulation, whole cases.** From related states the two models emit the same output for every event sequence. -/
-theorem simulation_run (feats : List String) (s : RState) (evs : List Ev) (hS : Sim s) :
-    heapRun feats s evs = absRun feats (absCase s) evs := by
-  induction evs generalizing s with
-  | nil => rfl
-  | cons e rest ih =>
-    obtain ⟨h1, h2⟩ := simulation_step feats s e hS
-    simp only [heapRun, absRun, h1]
-    cases he : heapEvent feats s e with
-    | error o => rfl
-    | ok p =>
-      obtain ⟨s', o⟩ := p
-      simp only []
-      rw [ih s' (h2 s' o he)]
-
-/-- **… from the initial state of a case**: for every variant, every calling crate and every event sequence, the heap
-machine started on one fresh object emits exactly what the `RefCase` model the driver runs emits from `RefCase.init` —
-so the outcome of the correspondence check of the abstract model against the real code is also the outcome for the heap
-machine -/
-theorem simulation_from_init (feats : List String) (v : RefVariant) (evs : List Ev) :
-    heapRun feats (RState.init v) evs = absRun feats (RefCase.init v) evs := by
-  rw [simulation_run feats _ evs (sim_init v).1, (sim_init v).2]
-
-theorem absRun_no_fault (feats : List String) (c : RefCase) (evs : List Ev) (e : HFault) :
-    Out.fault e ∉ absRun feats c evs := by
-  induction evs generalizing c with
-  | nil => simp [absRun]
-  | cons ev rest ih =>
-    simp only [absRun]
-    cases hev : absEvent feats c ev with
-    | error o =>
-      simp only [List.mem_singleton]
-      intro ho; subst ho
-      cases ev <;> simp only [absEvent] at hev <;> (try split at hev) <;> (try split at hev) <;> cases hev
-    | ok p =>
-      obtain ⟨c', o⟩ := p
-      simp only [List.mem_cons, not_or]
-      refine ⟨?_, ih c'⟩
-      intro ho; subst ho
-      cases ev <;> simp only [absEvent] at hev <;> (try split at hev) <;> (try split at hev) <;> cases hev
-
-/-- consequence: a one-object case never makes the heap machine fault (no dangling address, no use after free),
-whatever the events — including events on dropped or never-created handles, which stop the case with `bad` -/
-theorem heapRun_no_memory_fault (feats : List String) (v : RefVariant) (evs : List Ev) (e : HFault) :
-    Out.fault e ∉ heapRun feats (RState.init v) evs := by
-  rw [simulation_from_init]; exact absRun_no_fault feats _ evs e
-
-/-- non-vacuity: a case on both models (`Rc`, harness features): clone, write through the clone, convert, drop the
-original and the clone, increment through the trait object, read, drop it, ask for liveness, use a dead handle -/
-example : heapRun ["alloc", "std"] (RState.init .rcRefCell)
-    [.cl 0, .wr 1 7, .dy 1, .dr 0, .dr 1, .inc 2, .rd 2, .live, .dr 2, .live, .rd 0] =
-    [.done, .done, .done, .done, .done, .done, .val 8, .flag true, .done, .flag false, .bad] := by rfl
-example : absRun ["alloc", "std"] (RefCase.init .rcRefCell)
-    [.cl 0, .wr 1 7, .dy 1, .dr 0, .dr 1, .inc 2, .rd 2, .live, .dr 2, .live, .rd 0] =
-    [.done, .done, .done, .done, .done, .done, .val 8, .flag true, .done, .flag false, .bad] := by rfl
-
-/-- `to_dyn!` in its moving form is the abstract "convert a clone, then drop the original": same table shape, same
-cell, no count change -/
-theorem sim_toDynMove (feats : List String) (s : RState) (hS : Sim s) (i : Nat) (h : RHandle)
-    (hi : s.table.getD i none = some h) (harm : toDynHasArm feats h.variant = true) :
-    ∃ s' c1, s.toDynMove feats i = .ok s' ∧ Sim s' ∧ (absCase s).toDyn feats i = some (.ok c1) ∧
-      c1.drop i = some (absCase s') := by
-  obtain ⟨h0, c, hc, hcell, hk, hf, _⟩ := sim_live s hS i h hi
-  have he : s.toDynMove feats i = .ok ⟨s.heap, s.table.set i none ++ [some { h with isDyn := true }]⟩ := by
-    rw [rtoDynMove_eq, hi]; simp only [harm, if_true]
-  have hlt := getD_lt _ _ _ hi
-  refine ⟨_, ⟨c.kind, c.value, dyns s.table ++ [some true], c.freed⟩, he,
-    sim_exec feats s _ (.toDynMove i) (fun _ _ hh => by cases hh) hS he, ?_, ?_⟩
-  · rw [absCase_mk _ _ c hc]
-    simp only [RefCase.toDyn, dyns_getD, hi, Option.map_some, hk, harm, if_true]
-  · have hlive : ((dyns s.table ++ [some true]).getD i none).isSome = true := by
-      rw [getD_append_left _ _ _ _ (by simpa [dyns] using hlt), dyns_getD, hi]; rfl
-    have hset : (dyns s.table ++ [some true]).set i none = (dyns s.table).set i none ++ [some true] := by
-      rw [List.set_append_left _ _ (by simpa [dyns] using hlt)]
-    rw [absCase_mk _ _ c hc, dyns_append, dyns_set]
-    simp only [RefCase.drop, RefCase.handleLive, hlive, if_true, hset, hf]
-    simp
-
-end Rrtk.Thm.C17
+import Rrtk.Thm.Lemmas.C17Heap
+import Rrtk.Thm.Lemmas.C17Alias
